@@ -10,7 +10,8 @@ typedef struct { unsigned long n; char a[N + 1]; } view_t;
 #define NPOS (~0UL)
 #define BUF(s) ((s)._storage._buffer._buf)
 #if VF_N < 16
-#define SZ(s) ((unsigned long)N - (unsigned long)BUF(s)[N])
+static unsigned long sz_tiny(char vf_sb) { return vf_sb < 0 || vf_sb > N ? NPOS : (unsigned long)(N - vf_sb); } /* get_size() = N - size_type(_buffer[N]); any value outside [0, N] is not wf */
+#define SZ(s) sz_tiny(BUF(s)[N])
 #define SZ_RAW_EQ(x, y) 1
 #else
 #define SZ(s) ((unsigned long)(s)._storage._size)
@@ -54,20 +55,20 @@ static unsigned long sp_ffo(view_t h, const char *set, unsigned long m, unsigned
 static unsigned long sp_flo(view_t h, const char *set, unsigned long m, unsigned long pos, _Bool neg) { for (int i = N - 1; i >= 0; --i) if ((unsigned long)i <= pos && (unsigned long)i < h.n && sp_in_set(h.a[i], set, m) != neg) return (unsigned long)i; return NPOS; }
 
 #define ARB(v) VF_INPUT(S, v); __CPROVER_assume(WF(v))
-/* XBUF: same contract as VF_BUF (exact-size heap buffer of n elements copied from the input array name_in, not terminated, nothing behind
- * the last element), but the allocation is one of N+3 objects of CONCRETE size: a malloc of symbolic size makes every access a byte_extract
- * over a symbolic-size array (measured: 55 s instead of 4 s for one constructor at N=16). */
-#if defined(VF_NATIVE) || defined(VF_SCAN)
-#define XALLOC(n) ((char *)VF_ALLOC(n))
+/* XBUF: an exact-size buffer of n elements (n symbolic, n <= MAX), not terminated, nothing readable behind the last element: the same contract as
+ * VF_BUF towards the code under test, but without a symbolic-size malloc and without a copy loop (measured at N=7: find_first_of(sv) > 200 s
+ * with the copy, 34 s without; a constructor at N=16 55 s with a symbolic-size malloc, 4 s without).  Under CBMC the buffer is the LAST n
+ * elements of the all-symbolic input array name_in (name = name_in + MAX+1-n): name[n] is one past the end of the object, so any access at or
+ * beyond name + n is an out-of-bounds failure; an access BEFORE name[0] lands in the unused head of name_in and is not detected under CBMC.
+ * In the native replay the buffer is an exact-size malloc copy of that slice (ASan checks both ends).  Specifications read name[j]. */
+#if defined(VF_NATIVE)
+#define XBUF(T, name, n, MAX) VF_INPUT_ARR(T, name##_in, (MAX) + 1); __CPROVER_assume((unsigned long)(n) <= (unsigned long)(MAX)); T *name = (T *)VF_ALLOC((unsigned long)(n) * sizeof(T)); \
+  memcpy(name, name##_in + ((MAX) + 1 - (unsigned long)(n)), (unsigned long)(n) * sizeof(T))
 #else
-static char *xalloc(unsigned long n) { for (unsigned long k = 0; k <= N + 2; ++k) if (k == n) return (char *)malloc(k); __CPROVER_assume(0); return 0; }
-#define XALLOC(n) xalloc(n)
+#define XBUF(T, name, n, MAX) VF_INPUT_ARR(T, name##_in, (MAX) + 1); __CPROVER_assume((unsigned long)(n) <= (unsigned long)(MAX)); T *name = name##_in + ((MAX) + 1 - (unsigned long)(n))
 #endif
-#define XBUF(T, name, n, MAX) VF_INPUT_ARR(T, name##_in, (MAX) + 1); __CPROVER_assume((unsigned long)(n) <= (unsigned long)(MAX)); T *name = XALLOC((unsigned long)(n)); \
-  for (unsigned long vf_i_##name = 0; vf_i_##name < (unsigned long)(n); ++vf_i_##name) name[vf_i_##name] = name##_in[vf_i_##name]
 /* C string of exactly len characters in an exact-size buffer of len+1 bytes */
-#define CSTR(name, len, MAX) XBUF(char, name, (unsigned long)(len) + 1, (MAX) + 1); __CPROVER_assume(name##_in[len] == 0); \
-  for (int vf_j_##name = 0; vf_j_##name < (MAX); ++vf_j_##name) __CPROVER_assume((unsigned long)vf_j_##name >= (unsigned long)(len) || name##_in[vf_j_##name] != 0)
+#define CSTR(name, len, MAX) XBUF(char, name, (unsigned long)(len) + 1, (MAX) + 1); CSTR_ASSUME(name, len, MAX)
 #define POST(s, expect, what) VF_ASSERT(WF(s), "C04: wf after " what ": size() <= capacity() and data()[size()] == 0"); VF_ASSERT(view_eq(view_of(&(s)), (expect)), "C04: " what)
 #define CAPACITY_UNCHANGED(v) VF_ASSERT(s_capacity(&(v)) == N && s_max_size(&(v)) == N, "capacity() and max_size() are always N")
 /* operands by value: (n, chars) of a substring; sp_signflip = witness class of C04_compare_signed_char */
@@ -82,43 +83,43 @@ static _Bool sp_has_inner_nul(seq_t x) { for (int i = 1; i < N + 2; ++i) if ((un
 /*@COMMON@*/
 #define H_DEFAULT_CTOR(NAME, KNOWN) void NAME(void) { VF_INPUT(S, s); /* indeterminate storage */ s_ctor_default(&s); \
   POST(s, sp_empty(), "basic_inplace_string(): empty"); VF_ASSERT(s_size(&s) == 0 && s_empty(&s), "default construction: size() == 0"); CAPACITY_UNCHANGED(s); VF_REACH(); }
-/*@GROUP name=default_ctor props=C04,C02 kind=K unwind=12 when=VF_N<=7@*/
+/*@GROUP name=default_ctor props=C04,C02 kind=K unwind=11 when=VF_N<=7@*/
 H_DEFAULT_CTOR(h_default_ctor, ((void)0))
-/*@GROUP name=default_ctor_u21 props=C04,C02 kind=K unwind=21 when=7<VF_N<=16@*/
-H_DEFAULT_CTOR(h_default_ctor_u21, ((void)0))
-/*@GROUP name=default_ctor_u36 props=C04,C02 kind=K unwind=36 when=VF_N>16 tier=thorough timeout=3000@*/
-H_DEFAULT_CTOR(h_default_ctor_u36, ((void)0))
+/*@GROUP name=default_ctor_m props=C04,C02 kind=K unwind=20 when=7<VF_N<=16@*/
+H_DEFAULT_CTOR(h_default_ctor_m, ((void)0))
+/*@GROUP name=default_ctor_w props=C04,C02 kind=K unwind=35 when=VF_N>16 tier=thorough timeout=3000@*/
+H_DEFAULT_CTOR(h_default_ctor_w, ((void)0))
 
 /*@COMMON@*/
 #define H_CTOR_FILL(NAME, KNOWN) void NAME(void) { VF_INPUT(S, s); VF_INPUT(unsigned char, c); VF_INPUT(char, ch); __CPROVER_assume(c <= N); fill_t f = sp_fill(ch); \
   s_ctor_n_ch(&s, c, ch); POST(s, sp_splice(sp_empty(), 0, 0, f.a, c), "basic_inplace_string(count, ch): count copies of ch"); VF_REACH(); }
-/*@GROUP name=ctor_fill props=C04,C02,C05 kind=K unwind=12 when=VF_N<=7@*/
+/*@GROUP name=ctor_fill props=C04,C02,C05 kind=K unwind=11 when=VF_N<=7@*/
 H_CTOR_FILL(h_ctor_fill, ((void)0))
-/*@GROUP name=ctor_fill_u21 props=C04,C02,C05 kind=K unwind=21 when=7<VF_N<=16@*/
-H_CTOR_FILL(h_ctor_fill_u21, ((void)0))
-/*@GROUP name=ctor_fill_u36 props=C04,C02,C05 kind=K unwind=36 when=VF_N>16 tier=thorough timeout=3000@*/
-H_CTOR_FILL(h_ctor_fill_u36, ((void)0))
+/*@GROUP name=ctor_fill_m props=C04,C02,C05 kind=K unwind=20 when=7<VF_N<=16@*/
+H_CTOR_FILL(h_ctor_fill_m, ((void)0))
+/*@GROUP name=ctor_fill_w props=C04,C02,C05 kind=K unwind=35 when=VF_N>16 tier=thorough timeout=3000@*/
+H_CTOR_FILL(h_ctor_fill_w, ((void)0))
 
 /*@COMMON@*/
 #define H_CTOR_BUF(NAME, KNOWN) void NAME(void) { VF_INPUT(S, s); VF_INPUT(unsigned char, c); VF_INPUT(unsigned char, which); __CPROVER_assume(c <= N); XBUF(char, src, c, N); \
   if (which == 0) s_ctor_ptr_n(&s, src, c); else if (which == 1) s_ctor_range(&s, src, src + c); else s_ctor_sv(&s, src, c); \
-  POST(s, sp_splice(sp_empty(), 0, 0, src_in, c), "basic_inplace_string(s, count) / (first, last) / (string_view): exactly the source characters"); VF_REACH(); }
-/*@GROUP name=ctor_buf props=C04,C02,C05 kind=K unwind=12 when=VF_N<=7@*/
+  POST(s, sp_splice(sp_empty(), 0, 0, src, c), "basic_inplace_string(s, count) / (first, last) / (string_view): exactly the source characters"); VF_REACH(); }
+/*@GROUP name=ctor_buf props=C04,C02,C05 kind=K unwind=11 when=VF_N<=7@*/
 H_CTOR_BUF(h_ctor_buf, ((void)0))
-/*@GROUP name=ctor_buf_u21 props=C04,C02,C05 kind=K unwind=21 when=7<VF_N<=16@*/
-H_CTOR_BUF(h_ctor_buf_u21, ((void)0))
-/*@GROUP name=ctor_buf_u36 props=C04,C02,C05 kind=K unwind=36 when=VF_N>16 tier=thorough timeout=3000@*/
-H_CTOR_BUF(h_ctor_buf_u36, ((void)0))
+/*@GROUP name=ctor_buf_m props=C04,C02,C05 kind=K unwind=20 when=7<VF_N<=16@*/
+H_CTOR_BUF(h_ctor_buf_m, ((void)0))
+/*@GROUP name=ctor_buf_w props=C04,C02,C05 kind=K unwind=35 when=VF_N>16 tier=thorough timeout=3000@*/
+H_CTOR_BUF(h_ctor_buf_w, ((void)0))
 
 /*@COMMON@*/
 #define H_CTOR_CSTR(NAME, KNOWN) void NAME(void) { VF_INPUT(S, s); VF_INPUT(unsigned char, c); __CPROVER_assume(c <= N); CSTR(src, c, N); \
-  s_ctor_cstr(&s, src); POST(s, sp_splice(sp_empty(), 0, 0, src_in, c), "basic_inplace_string(char const*): the characters before the terminator"); VF_REACH(); }
-/*@GROUP name=ctor_cstr props=C04,C02,C05 kind=K unwind=12 when=VF_N<=7@*/
+  s_ctor_cstr(&s, src); POST(s, sp_splice(sp_empty(), 0, 0, src, c), "basic_inplace_string(char const*): the characters before the terminator"); VF_REACH(); }
+/*@GROUP name=ctor_cstr props=C04,C02,C05 kind=K unwind=11 when=VF_N<=7@*/
 H_CTOR_CSTR(h_ctor_cstr, ((void)0))
-/*@GROUP name=ctor_cstr_u21 props=C04,C02,C05 kind=K unwind=21 when=7<VF_N<=16@*/
-H_CTOR_CSTR(h_ctor_cstr_u21, ((void)0))
-/*@GROUP name=ctor_cstr_u36 props=C04,C02,C05 kind=K unwind=36 when=VF_N>16 tier=thorough timeout=3000@*/
-H_CTOR_CSTR(h_ctor_cstr_u36, ((void)0))
+/*@GROUP name=ctor_cstr_m props=C04,C02,C05 kind=K unwind=20 when=7<VF_N<=16@*/
+H_CTOR_CSTR(h_ctor_cstr_m, ((void)0))
+/*@GROUP name=ctor_cstr_w props=C04,C02,C05 kind=K unwind=35 when=VF_N>16 tier=thorough timeout=3000@*/
+H_CTOR_CSTR(h_ctor_cstr_w, ((void)0))
 
 /*@COMMON@*/
 #define H_CTOR_SUBSTR(NAME, KNOWN) void NAME(void) { VF_INPUT(S, s); ARB(t); VF_INPUT(unsigned long, pos); VF_INPUT(unsigned long, cnt); VF_INPUT(unsigned char, which); view_t b = view_of(&t); __CPROVER_assume(pos <= b.n); \
@@ -127,24 +128,24 @@ H_CTOR_CSTR(h_ctor_cstr_u36, ((void)0))
   if (which == 0) s_ctor_substr(&s, &t, pos, cnt); else s_ctor_substr_pos(&s, &t, pos); \
   POST(s, sp_splice(sp_empty(), 0, 0, b.a + pos, rlen), "basic_inplace_string(str, pos[, n]): the characters [pos, pos + min(n, size - pos)) of str"); \
   VF_ASSERT(view_eq(view_of(&t), b) && WF(t), "the source string is unchanged"); VF_REACH(); }
-/*@GROUP name=ctor_substr props=C04,C02,C05 kind=K unwind=12 when=VF_N<=7@*/
+/*@GROUP name=ctor_substr props=C04,C02,C05 kind=K unwind=11 when=VF_N<=7@*/
 H_CTOR_SUBSTR(h_ctor_substr, ((void)0))
-/*@GROUP name=ctor_substr_u21 props=C04,C02,C05 kind=K unwind=21 when=7<VF_N<=16@*/
-H_CTOR_SUBSTR(h_ctor_substr_u21, ((void)0))
-/*@GROUP name=ctor_substr_u36 props=C04,C02,C05 kind=K unwind=36 when=VF_N>16 tier=thorough timeout=3000@*/
-H_CTOR_SUBSTR(h_ctor_substr_u36, ((void)0))
+/*@GROUP name=ctor_substr_m props=C04,C02,C05 kind=K unwind=20 when=7<VF_N<=16@*/
+H_CTOR_SUBSTR(h_ctor_substr_m, ((void)0))
+/*@GROUP name=ctor_substr_w props=C04,C02,C05 kind=K unwind=35 when=VF_N>16 tier=thorough timeout=3000@*/
+H_CTOR_SUBSTR(h_ctor_substr_w, ((void)0))
 
 /*@COMMON@*/
 #define H_CTOR_SV_SUB(NAME, KNOWN) void NAME(void) { VF_INPUT(S, s); VF_INPUT(unsigned char, m); VF_INPUT(unsigned char, pos); VF_INPUT(unsigned long, cnt); __CPROVER_assume(m <= N + 1 && pos <= m); XBUF(char, src, m, N + 1); \
   unsigned long rlen = umin(cnt, m - pos); __CPROVER_assume(rlen <= N); \
   s_ctor_sv_pos_n(&s, src, m, pos, cnt); \
-  POST(s, sp_splice(sp_empty(), 0, 0, src_in + pos, rlen), "basic_inplace_string(sv, pos, n): sv.substr(pos, n)"); VF_REACH(); }
-/*@GROUP name=ctor_sv_sub props=C04,C02,C05 kind=K unwind=12 when=VF_N<=7@*/
+  POST(s, sp_splice(sp_empty(), 0, 0, src + pos, rlen), "basic_inplace_string(sv, pos, n): sv.substr(pos, n)"); VF_REACH(); }
+/*@GROUP name=ctor_sv_sub props=C04,C02,C05 kind=K unwind=11 when=VF_N<=7@*/
 H_CTOR_SV_SUB(h_ctor_sv_sub, ((void)0))
-/*@GROUP name=ctor_sv_sub_u21 props=C04,C02,C05 kind=K unwind=21 when=7<VF_N<=16@*/
-H_CTOR_SV_SUB(h_ctor_sv_sub_u21, ((void)0))
-/*@GROUP name=ctor_sv_sub_u36 props=C04,C02,C05 kind=K unwind=36 when=VF_N>16 tier=thorough timeout=3000@*/
-H_CTOR_SV_SUB(h_ctor_sv_sub_u36, ((void)0))
+/*@GROUP name=ctor_sv_sub_m props=C04,C02,C05 kind=K unwind=20 when=7<VF_N<=16@*/
+H_CTOR_SV_SUB(h_ctor_sv_sub_m, ((void)0))
+/*@GROUP name=ctor_sv_sub_w props=C04,C02,C05 kind=K unwind=35 when=VF_N>16 tier=thorough timeout=3000@*/
+H_CTOR_SV_SUB(h_ctor_sv_sub_w, ((void)0))
 
 /*@COMMON@*/
 #define H_COPY_MOVE(NAME, KNOWN) void NAME(void) { ARB(s); VF_INPUT(S, t); VF_INPUT(unsigned char, which); VF_INPUT(char, x); view_t os = view_of(&s); S *r = &t; \
@@ -158,56 +159,56 @@ H_CTOR_SV_SUB(h_ctor_sv_sub_u36, ((void)0))
   if (which != 2 && which != 3) { VF_ASSERT(view_eq(view_of(&s), os), "copy leaves the source unchanged"); \
     if (SZ(t) > 0) { BUF(t)[0] = x; s_pop_back(&t); } VF_ASSERT(view_eq(view_of(&s), os), "independence: mutating the copy leaves the source unchanged"); } \
   VF_REACH(); }
-/*@GROUP name=copy_move props=C04,C02 kind=K unwind=12 when=VF_N<=7@*/
+/*@GROUP name=copy_move props=C04,C02 kind=K unwind=11 when=VF_N<=7@*/
 H_COPY_MOVE(h_copy_move, ((void)0))
-/*@GROUP name=copy_move_u21 props=C04,C02 kind=K unwind=21 when=7<VF_N<=16@*/
-H_COPY_MOVE(h_copy_move_u21, ((void)0))
-/*@GROUP name=copy_move_u36 props=C04,C02 kind=K unwind=36 when=VF_N>16 tier=thorough timeout=3000@*/
-H_COPY_MOVE(h_copy_move_u36, ((void)0))
+/*@GROUP name=copy_move_m props=C04,C02 kind=K unwind=20 when=7<VF_N<=16@*/
+H_COPY_MOVE(h_copy_move_m, ((void)0))
+/*@GROUP name=copy_move_w props=C04,C02 kind=K unwind=35 when=VF_N>16 tier=thorough timeout=3000@*/
+H_COPY_MOVE(h_copy_move_w, ((void)0))
 
 /*@COMMON@*/
 #define H_SELF_ASSIGN(NAME, KNOWN) void NAME(void) { ARB(s); view_t os = view_of(&s); VF_INPUT(unsigned char, which); \
   if (which == 0) s_copy_assign(&s, &s); else if (which == 1) s_move_assign(&s, &s); else if (which == 2) s_assign_str(&s, &s); else s_swap(&s, &s); \
   VF_ASSERT(WF(s), "C04: self-assignment / self-swap keeps the object well-formed"); if (which != 1) VF_ASSERT(view_eq(view_of(&s), os), "C04: copy self-assignment, assign(*this) and self-swap keep the contents"); VF_REACH(); }
-/*@GROUP name=self_assign props=C04,C02 kind=K unwind=12 when=VF_N<=7@*/
+/*@GROUP name=self_assign props=C04,C02 kind=K unwind=11 when=VF_N<=7@*/
 H_SELF_ASSIGN(h_self_assign, ((void)0))
-/*@GROUP name=self_assign_u21 props=C04,C02 kind=K unwind=21 when=7<VF_N<=16@*/
-H_SELF_ASSIGN(h_self_assign_u21, ((void)0))
-/*@GROUP name=self_assign_u36 props=C04,C02 kind=K unwind=36 when=VF_N>16 tier=thorough timeout=3000@*/
-H_SELF_ASSIGN(h_self_assign_u36, ((void)0))
+/*@GROUP name=self_assign_m props=C04,C02 kind=K unwind=20 when=7<VF_N<=16@*/
+H_SELF_ASSIGN(h_self_assign_m, ((void)0))
+/*@GROUP name=self_assign_w props=C04,C02 kind=K unwind=35 when=VF_N>16 tier=thorough timeout=3000@*/
+H_SELF_ASSIGN(h_self_assign_w, ((void)0))
 
 /*@COMMON@*/
 #define H_ASSIGN_FILL(NAME, KNOWN) void NAME(void) { ARB(s); VF_INPUT(unsigned char, c); VF_INPUT(char, ch); VF_INPUT_BOOL(op); fill_t f = sp_fill(ch); S *r; \
   if (op) { c = 1; r = s_opassign_ch(&s, ch); } else { __CPROVER_assume(c <= N); r = s_assign_n_ch(&s, c, ch); } \
   POST(s, sp_splice(sp_empty(), 0, 0, f.a, c), "assign(count, ch) / operator=(ch): count copies of ch"); VF_ASSERT(r == &s, "assign returns *this"); VF_REACH(); }
-/*@GROUP name=assign_fill props=C04,C02,C05 kind=K unwind=12 when=VF_N<=7@*/
+/*@GROUP name=assign_fill props=C04,C02,C05 kind=K unwind=11 when=VF_N<=7@*/
 H_ASSIGN_FILL(h_assign_fill, ((void)0))
-/*@GROUP name=assign_fill_u21 props=C04,C02,C05 kind=K unwind=21 when=7<VF_N<=16@*/
-H_ASSIGN_FILL(h_assign_fill_u21, ((void)0))
-/*@GROUP name=assign_fill_u36 props=C04,C02,C05 kind=K unwind=36 when=VF_N>16 tier=thorough timeout=3000@*/
-H_ASSIGN_FILL(h_assign_fill_u36, ((void)0))
+/*@GROUP name=assign_fill_m props=C04,C02,C05 kind=K unwind=20 when=7<VF_N<=16@*/
+H_ASSIGN_FILL(h_assign_fill_m, ((void)0))
+/*@GROUP name=assign_fill_w props=C04,C02,C05 kind=K unwind=35 when=VF_N>16 tier=thorough timeout=3000@*/
+H_ASSIGN_FILL(h_assign_fill_w, ((void)0))
 
 /*@COMMON@*/
 #define H_ASSIGN_BUF(NAME, KNOWN) void NAME(void) { ARB(s); VF_INPUT(unsigned char, c); VF_INPUT(unsigned char, which); __CPROVER_assume(c <= N); XBUF(char, src, c, N); S *r; \
   if (which == 0) r = s_assign_ptr_n(&s, src, c); else if (which == 1) r = s_assign_range(&s, src, src + c); else if (which == 2) r = s_assign_sv(&s, src, c); else r = s_opassign_sv(&s, src, c); \
-  POST(s, sp_splice(sp_empty(), 0, 0, src_in, c), "assign(s, count) / (first, last) / (string_view), operator=(string_view): exactly the source characters"); VF_ASSERT(r == &s, "assign returns *this"); VF_REACH(); }
-/*@GROUP name=assign_buf props=C04,C02,C05 kind=K unwind=12 when=VF_N<=7@*/
+  POST(s, sp_splice(sp_empty(), 0, 0, src, c), "assign(s, count) / (first, last) / (string_view), operator=(string_view): exactly the source characters"); VF_ASSERT(r == &s, "assign returns *this"); VF_REACH(); }
+/*@GROUP name=assign_buf props=C04,C02,C05 kind=K unwind=11 when=VF_N<=7@*/
 H_ASSIGN_BUF(h_assign_buf, ((void)0))
-/*@GROUP name=assign_buf_u21 props=C04,C02,C05 kind=K unwind=21 when=7<VF_N<=16@*/
-H_ASSIGN_BUF(h_assign_buf_u21, ((void)0))
-/*@GROUP name=assign_buf_u36 props=C04,C02,C05 kind=K unwind=36 when=VF_N>16 tier=thorough timeout=3000@*/
-H_ASSIGN_BUF(h_assign_buf_u36, ((void)0))
+/*@GROUP name=assign_buf_m props=C04,C02,C05 kind=K unwind=20 when=7<VF_N<=16@*/
+H_ASSIGN_BUF(h_assign_buf_m, ((void)0))
+/*@GROUP name=assign_buf_w props=C04,C02,C05 kind=K unwind=35 when=VF_N>16 tier=thorough timeout=3000@*/
+H_ASSIGN_BUF(h_assign_buf_w, ((void)0))
 
 /*@COMMON@*/
 #define H_ASSIGN_CSTR(NAME, KNOWN) void NAME(void) { ARB(s); VF_INPUT(unsigned char, c); VF_INPUT_BOOL(op); __CPROVER_assume(c <= N); CSTR(src, c, N); S *r; \
   if (op) r = s_opassign_cstr(&s, src); else r = s_assign_cstr(&s, src); \
-  POST(s, sp_splice(sp_empty(), 0, 0, src_in, c), "assign(char const*) / operator=(char const*): the characters before the terminator"); VF_ASSERT(r == &s, "assign returns *this"); VF_REACH(); }
-/*@GROUP name=assign_cstr props=C04,C02,C05 kind=K unwind=12 when=VF_N<=7@*/
+  POST(s, sp_splice(sp_empty(), 0, 0, src, c), "assign(char const*) / operator=(char const*): the characters before the terminator"); VF_ASSERT(r == &s, "assign returns *this"); VF_REACH(); }
+/*@GROUP name=assign_cstr props=C04,C02,C05 kind=K unwind=11 when=VF_N<=7@*/
 H_ASSIGN_CSTR(h_assign_cstr, ((void)0))
-/*@GROUP name=assign_cstr_u21 props=C04,C02,C05 kind=K unwind=21 when=7<VF_N<=16@*/
-H_ASSIGN_CSTR(h_assign_cstr_u21, ((void)0))
-/*@GROUP name=assign_cstr_u36 props=C04,C02,C05 kind=K unwind=36 when=VF_N>16 tier=thorough timeout=3000@*/
-H_ASSIGN_CSTR(h_assign_cstr_u36, ((void)0))
+/*@GROUP name=assign_cstr_m props=C04,C02,C05 kind=K unwind=20 when=7<VF_N<=16@*/
+H_ASSIGN_CSTR(h_assign_cstr_m, ((void)0))
+/*@GROUP name=assign_cstr_w props=C04,C02,C05 kind=K unwind=35 when=VF_N>16 tier=thorough timeout=3000@*/
+H_ASSIGN_CSTR(h_assign_cstr_w, ((void)0))
 
 /*@COMMON@*/
 #define H_ASSIGN_SUB(NAME, KNOWN) void NAME(void) { ARB(s); ARB(t); VF_INPUT(unsigned long, pos); VF_INPUT(unsigned long, cnt); VF_INPUT(unsigned char, m); VF_INPUT(unsigned char, which); view_t b = view_of(&t); S *r; \
@@ -217,14 +218,14 @@ H_ASSIGN_CSTR(h_assign_cstr_u36, ((void)0))
     POST(s, sp_splice(sp_empty(), 0, 0, b.a + pos, rlen), "assign(str, pos[, n]): str.substr(pos, n)"); VF_ASSERT(view_eq(view_of(&t), b) && WF(t), "the source string is unchanged"); } \
   else { __CPROVER_assume(pos <= m); unsigned long rlen = which == 2 ? umin(cnt, m - pos) : m - pos; __CPROVER_assume(rlen <= N); \
     r = which == 2 ? s_assign_sv_pos_n(&s, src, m, pos, cnt) : s_assign_sv_pos(&s, src, m, pos); \
-    POST(s, sp_splice(sp_empty(), 0, 0, src_in + pos, rlen), "assign(sv, pos[, n]): sv.substr(pos, n)"); } \
+    POST(s, sp_splice(sp_empty(), 0, 0, src + pos, rlen), "assign(sv, pos[, n]): sv.substr(pos, n)"); } \
   VF_ASSERT(r == &s, "assign returns *this"); VF_REACH(); }
-/*@GROUP name=assign_sub props=C04,C02,C05 kind=K unwind=12 when=VF_N<=7@*/
+/*@GROUP name=assign_sub props=C04,C02,C05 kind=K unwind=11 when=VF_N<=7@*/
 H_ASSIGN_SUB(h_assign_sub, ((void)0))
-/*@GROUP name=assign_sub_u21 props=C04,C02,C05 kind=K unwind=21 when=7<VF_N<=16@*/
-H_ASSIGN_SUB(h_assign_sub_u21, ((void)0))
-/*@GROUP name=assign_sub_u36 props=C04,C02,C05 kind=K unwind=36 when=VF_N>16 tier=thorough timeout=3000@*/
-H_ASSIGN_SUB(h_assign_sub_u36, ((void)0))
+/*@GROUP name=assign_sub_m props=C04,C02,C05 kind=K unwind=20 when=7<VF_N<=16@*/
+H_ASSIGN_SUB(h_assign_sub_m, ((void)0))
+/*@GROUP name=assign_sub_w props=C04,C02,C05 kind=K unwind=35 when=VF_N>16 tier=thorough timeout=3000@*/
+H_ASSIGN_SUB(h_assign_sub_w, ((void)0))
 
 /*@COMMON@*/
 /* ---- append: the overloads built on append(count, ch) / append(s, count) CLAMP to the capacity ("maximum up to its capacity"); the ones built on
@@ -236,58 +237,58 @@ H_ASSIGN_SUB(h_assign_sub_u36, ((void)0))
   if (which == 0) r = s_append_n_ch(&s, c, ch); else if (which == 1) { c = 1; r = s_pluseq_ch(&s, ch); } else { c = 1; __CPROVER_assume(o.n < N); s_push_back(&s, ch); } \
   POST(s, sp_splice(o, o.n, 0, f.a, umin(c, N - o.n)), "append(count, ch) / operator+=(ch) / push_back(ch): min(count, capacity - size) copies of ch are appended, the prefix is unchanged"); \
   VF_ASSERT(r == &s, "append returns *this"); CAPACITY_UNCHANGED(s); VF_REACH(); }
-/*@GROUP name=append_fill props=C04,C02,C05 kind=K unwind=12 when=VF_N<=7@*/
+/*@GROUP name=append_fill props=C04,C02,C05 kind=K unwind=11 when=VF_N<=7@*/
 H_APPEND_FILL(h_append_fill, ((void)0))
-/*@GROUP name=append_fill_u21 props=C04,C02,C05 kind=K unwind=21 when=7<VF_N<=16@*/
-H_APPEND_FILL(h_append_fill_u21, ((void)0))
-/*@GROUP name=append_fill_u36 props=C04,C02,C05 kind=K unwind=36 when=VF_N>16 tier=thorough timeout=3000@*/
-H_APPEND_FILL(h_append_fill_u36, ((void)0))
+/*@GROUP name=append_fill_m props=C04,C02,C05 kind=K unwind=20 when=7<VF_N<=16@*/
+H_APPEND_FILL(h_append_fill_m, ((void)0))
+/*@GROUP name=append_fill_w props=C04,C02,C05 kind=K unwind=35 when=VF_N>16 tier=thorough timeout=3000@*/
+H_APPEND_FILL(h_append_fill_w, ((void)0))
 
 /*@COMMON@*/
 #define H_APPEND_BUF(NAME, KNOWN) void NAME(void) { ARB(s); VF_INPUT(unsigned char, c); VF_INPUT(unsigned char, which); __CPROVER_assume(c <= N + 1); XBUF(char, src, c, N + 1); view_t o = view_of(&s); S *r; \
   if (which == 0) r = s_append_ptr_n(&s, src, c); else if (which == 1) r = s_append_sv(&s, src, c); else r = s_pluseq_sv(&s, src, c); \
-  POST(s, sp_splice(o, o.n, 0, src_in, umin(c, N - o.n)), "append(s, count) / (string_view), operator+=(string_view): the first min(count, capacity - size) source characters are appended"); \
+  POST(s, sp_splice(o, o.n, 0, src, umin(c, N - o.n)), "append(s, count) / (string_view), operator+=(string_view): the first min(count, capacity - size) source characters are appended"); \
   VF_ASSERT(r == &s, "append returns *this"); VF_REACH(); }
-/*@GROUP name=append_buf props=C04,C02,C05 kind=K unwind=12 when=VF_N<=7@*/
+/*@GROUP name=append_buf props=C04,C02,C05 kind=K unwind=11 when=VF_N<=7@*/
 H_APPEND_BUF(h_append_buf, ((void)0))
-/*@GROUP name=append_buf_u21 props=C04,C02,C05 kind=K unwind=21 when=7<VF_N<=16@*/
-H_APPEND_BUF(h_append_buf_u21, ((void)0))
-/*@GROUP name=append_buf_u36 props=C04,C02,C05 kind=K unwind=36 when=VF_N>16 tier=thorough timeout=3000@*/
-H_APPEND_BUF(h_append_buf_u36, ((void)0))
+/*@GROUP name=append_buf_m props=C04,C02,C05 kind=K unwind=20 when=7<VF_N<=16@*/
+H_APPEND_BUF(h_append_buf_m, ((void)0))
+/*@GROUP name=append_buf_w props=C04,C02,C05 kind=K unwind=35 when=VF_N>16 tier=thorough timeout=3000@*/
+H_APPEND_BUF(h_append_buf_w, ((void)0))
 
 /*@COMMON@*/
 #define H_APPEND_RANGE(NAME, KNOWN) void NAME(void) { ARB(s); VF_INPUT(unsigned char, c); view_t o = view_of(&s); __CPROVER_assume(c <= N - o.n); XBUF(char, src, c, N); \
   S *r = s_append_range(&s, src, src + c); \
-  POST(s, sp_splice(o, o.n, 0, src_in, c), "append(first, last): the source range is appended"); VF_ASSERT(r == &s, "append returns *this"); VF_REACH(); }
-/*@GROUP name=append_range props=C04,C02,C05 kind=K unwind=12 when=VF_N<=7 objbits=12 unwindset=_ZN3etl4fillIPccEEvT_S2_RKT0_.0:3@*/
+  POST(s, sp_splice(o, o.n, 0, src, c), "append(first, last): the source range is appended"); VF_ASSERT(r == &s, "append returns *this"); VF_REACH(); }
+/*@GROUP name=append_range props=C04,C02,C05 kind=K unwind=11 when=VF_N<=7 objbits=12 unwindset=_ZN3etl4fillIPccEEvT_S2_RKT0_.0:3@*/
 H_APPEND_RANGE(h_append_range, ((void)0))
-/*@GROUP name=append_range_u21 props=C04,C02,C05 kind=K unwind=21 when=7<VF_N<=16 objbits=12 unwindset=_ZN3etl4fillIPccEEvT_S2_RKT0_.0:3@*/
-H_APPEND_RANGE(h_append_range_u21, ((void)0))
-/*@GROUP name=append_range_u36 props=C04,C02,C05 kind=K unwind=36 when=VF_N>16 objbits=12 unwindset=_ZN3etl4fillIPccEEvT_S2_RKT0_.0:3 tier=thorough timeout=3000@*/
-H_APPEND_RANGE(h_append_range_u36, ((void)0))
+/*@GROUP name=append_range_m props=C04,C02,C05 kind=K unwind=20 when=7<VF_N<=16 objbits=12 unwindset=_ZN3etl4fillIPccEEvT_S2_RKT0_.0:3@*/
+H_APPEND_RANGE(h_append_range_m, ((void)0))
+/*@GROUP name=append_range_w props=C04,C02,C05 kind=K unwind=35 when=VF_N>16 objbits=12 unwindset=_ZN3etl4fillIPccEEvT_S2_RKT0_.0:3 tier=thorough timeout=3000@*/
+H_APPEND_RANGE(h_append_range_w, ((void)0))
 
 /*@COMMON@*/
 #define H_APPEND_CSTR(NAME, KNOWN) void NAME(void) { ARB(s); VF_INPUT(unsigned char, c); VF_INPUT_BOOL(op); __CPROVER_assume(c <= N + 1); CSTR(src, c, N + 1); view_t o = view_of(&s); S *r; \
   if (op) r = s_pluseq_cstr(&s, src); else r = s_append_cstr(&s, src); \
-  POST(s, sp_splice(o, o.n, 0, src_in, umin(c, N - o.n)), "append(char const*) / operator+=(char const*): the first min(strlen, capacity - size) characters are appended"); VF_ASSERT(r == &s, "append returns *this"); VF_REACH(); }
-/*@GROUP name=append_cstr props=C04,C02,C05 kind=K unwind=12 when=VF_N<=7@*/
+  POST(s, sp_splice(o, o.n, 0, src, umin(c, N - o.n)), "append(char const*) / operator+=(char const*): the first min(strlen, capacity - size) characters are appended"); VF_ASSERT(r == &s, "append returns *this"); VF_REACH(); }
+/*@GROUP name=append_cstr props=C04,C02,C05 kind=K unwind=11 when=VF_N<=7@*/
 H_APPEND_CSTR(h_append_cstr, ((void)0))
-/*@GROUP name=append_cstr_u21 props=C04,C02,C05 kind=K unwind=21 when=7<VF_N<=16@*/
-H_APPEND_CSTR(h_append_cstr_u21, ((void)0))
-/*@GROUP name=append_cstr_u36 props=C04,C02,C05 kind=K unwind=36 when=VF_N>16 tier=thorough timeout=3000@*/
-H_APPEND_CSTR(h_append_cstr_u36, ((void)0))
+/*@GROUP name=append_cstr_m props=C04,C02,C05 kind=K unwind=20 when=7<VF_N<=16@*/
+H_APPEND_CSTR(h_append_cstr_m, ((void)0))
+/*@GROUP name=append_cstr_w props=C04,C02,C05 kind=K unwind=35 when=VF_N>16 tier=thorough timeout=3000@*/
+H_APPEND_CSTR(h_append_cstr_w, ((void)0))
 
 /*@COMMON@*/
 #define H_APPEND_STR(NAME, KNOWN) void NAME(void) { ARB(s); ARB(t); VF_INPUT_BOOL(op); view_t o = view_of(&s), b = view_of(&t); __CPROVER_assume(b.n <= N - o.n); \
   S *r = op ? s_pluseq_str(&s, &t) : s_append_str(&s, &t); \
   POST(s, sp_splice(o, o.n, 0, b.a, b.n), "append(str) / operator+=(str): str is appended"); VF_ASSERT(r == &s, "append returns *this"); \
   VF_ASSERT(view_eq(view_of(&t), b) && WF(t), "the source string is unchanged"); VF_REACH(); }
-/*@GROUP name=append_str props=C04,C02,C05 kind=K unwind=12 when=VF_N<=7 objbits=12 unwindset=_ZN3etl4fillIPccEEvT_S2_RKT0_.0:3@*/
+/*@GROUP name=append_str props=C04,C02,C05 kind=K unwind=11 when=VF_N<=7 objbits=12 unwindset=_ZN3etl4fillIPccEEvT_S2_RKT0_.0:3@*/
 H_APPEND_STR(h_append_str, ((void)0))
-/*@GROUP name=append_str_u21 props=C04,C02,C05 kind=K unwind=21 when=7<VF_N<=16 objbits=12 unwindset=_ZN3etl4fillIPccEEvT_S2_RKT0_.0:3@*/
-H_APPEND_STR(h_append_str_u21, ((void)0))
-/*@GROUP name=append_str_u36 props=C04,C02,C05 kind=K unwind=36 when=VF_N>16 objbits=12 unwindset=_ZN3etl4fillIPccEEvT_S2_RKT0_.0:3 tier=thorough timeout=3000@*/
-H_APPEND_STR(h_append_str_u36, ((void)0))
+/*@GROUP name=append_str_m props=C04,C02,C05 kind=K unwind=20 when=7<VF_N<=16 objbits=12 unwindset=_ZN3etl4fillIPccEEvT_S2_RKT0_.0:3@*/
+H_APPEND_STR(h_append_str_m, ((void)0))
+/*@GROUP name=append_str_w props=C04,C02,C05 kind=K unwind=35 when=VF_N>16 objbits=12 unwindset=_ZN3etl4fillIPccEEvT_S2_RKT0_.0:3 tier=thorough timeout=3000@*/
+H_APPEND_STR(h_append_str_w, ((void)0))
 
 /*@COMMON@*/
 #define H_APPEND_STR_SUB(NAME, KNOWN) void NAME(void) { ARB(s); ARB(t); VF_INPUT(unsigned char, pos); VF_INPUT(unsigned long, cnt); VF_INPUT_BOOL(dflt); view_t o = view_of(&s), b = view_of(&t); \
@@ -295,44 +296,44 @@ H_APPEND_STR(h_append_str_u36, ((void)0))
   S *r = dflt ? s_append_str_pos(&s, &t, pos) : s_append_str_pos_n(&s, &t, pos, cnt); \
   POST(s, sp_splice(o, o.n, 0, b.a + pos, rlen), "append(str, pos[, n]): str.substr(pos, n) is appended"); VF_ASSERT(r == &s, "append returns *this"); \
   VF_ASSERT(view_eq(view_of(&t), b) && WF(t), "the source string is unchanged"); VF_REACH(); }
-/*@GROUP name=append_str_sub props=C04,C02,C05 kind=K unwind=12 when=VF_N<=7 objbits=12 unwindset=_ZN3etl4fillIPccEEvT_S2_RKT0_.0:3@*/
+/*@GROUP name=append_str_sub props=C04,C02,C05 kind=K unwind=11 when=VF_N<=7 objbits=12 unwindset=_ZN3etl4fillIPccEEvT_S2_RKT0_.0:3@*/
 H_APPEND_STR_SUB(h_append_str_sub, ((void)0))
-/*@GROUP name=append_str_sub_u21 props=C04,C02,C05 kind=K unwind=21 when=7<VF_N<=16 solver=kissat objbits=12 unwindset=_ZN3etl4fillIPccEEvT_S2_RKT0_.0:3@*/
-H_APPEND_STR_SUB(h_append_str_sub_u21, ((void)0))
-/*@GROUP name=append_str_sub_u36 props=C04,C02,C05 kind=K unwind=36 when=VF_N>16 objbits=12 unwindset=_ZN3etl4fillIPccEEvT_S2_RKT0_.0:3 tier=thorough timeout=3000@*/
-H_APPEND_STR_SUB(h_append_str_sub_u36, ((void)0))
+/*@GROUP name=append_str_sub_m props=C04,C02,C05 kind=K unwind=20 when=7<VF_N<=16 solver=kissat objbits=12 unwindset=_ZN3etl4fillIPccEEvT_S2_RKT0_.0:3@*/
+H_APPEND_STR_SUB(h_append_str_sub_m, ((void)0))
+/*@GROUP name=append_str_sub_w props=C04,C02,C05 kind=K unwind=35 when=VF_N>16 objbits=12 unwindset=_ZN3etl4fillIPccEEvT_S2_RKT0_.0:3 tier=thorough timeout=3000@*/
+H_APPEND_STR_SUB(h_append_str_sub_w, ((void)0))
 
 /*@COMMON@*/
 #define H_APPEND_SV_SUB(NAME, KNOWN) void NAME(void) { ARB(s); VF_INPUT(unsigned char, m); VF_INPUT(unsigned char, pos); VF_INPUT(unsigned long, cnt); __CPROVER_assume(m <= N + 1 && pos <= m); XBUF(char, src, m, N + 1); view_t o = view_of(&s); \
   unsigned long rlen = umin(cnt, m - pos); S *r = s_append_sv_pos_n(&s, src, m, pos, cnt); \
-  POST(s, sp_splice(o, o.n, 0, src_in + pos, umin(rlen, N - o.n)), "append(sv, pos, n): the first min(rlen, capacity - size) characters of sv.substr(pos, n) are appended"); VF_ASSERT(r == &s, "append returns *this"); VF_REACH(); }
-/*@GROUP name=append_sv_sub props=C04,C02,C05 kind=K unwind=12 when=VF_N<=7@*/
+  POST(s, sp_splice(o, o.n, 0, src + pos, umin(rlen, N - o.n)), "append(sv, pos, n): the first min(rlen, capacity - size) characters of sv.substr(pos, n) are appended"); VF_ASSERT(r == &s, "append returns *this"); VF_REACH(); }
+/*@GROUP name=append_sv_sub props=C04,C02,C05 kind=K unwind=11 when=VF_N<=7@*/
 H_APPEND_SV_SUB(h_append_sv_sub, ((void)0))
-/*@GROUP name=append_sv_sub_u21 props=C04,C02,C05 kind=K unwind=21 when=7<VF_N<=16 solver=kissat@*/
-H_APPEND_SV_SUB(h_append_sv_sub_u21, ((void)0))
-/*@GROUP name=append_sv_sub_u36 props=C04,C02,C05 kind=K unwind=36 when=VF_N>16 tier=thorough timeout=3000@*/
-H_APPEND_SV_SUB(h_append_sv_sub_u36, ((void)0))
+/*@GROUP name=append_sv_sub_m props=C04,C02,C05 kind=K unwind=20 when=7<VF_N<=16 solver=kissat@*/
+H_APPEND_SV_SUB(h_append_sv_sub_m, ((void)0))
+/*@GROUP name=append_sv_sub_w props=C04,C02,C05 kind=K unwind=35 when=VF_N>16 tier=thorough timeout=3000@*/
+H_APPEND_SV_SUB(h_append_sv_sub_w, ((void)0))
 
 /*@COMMON@*/
 #define H_APPEND_SV_POS(NAME, KNOWN) void NAME(void) { ARB(s); VF_INPUT(unsigned char, m); VF_INPUT(unsigned char, pos); __CPROVER_assume(m <= N + 1 && pos <= m); XBUF(char, src, m, N + 1); view_t o = view_of(&s); \
   S *r = s_append_sv_pos(&s, src, m, pos); \
-  POST(s, sp_splice(o, o.n, 0, src_in + pos, umin(m - pos, N - o.n)), "append(sv, pos): the first min(sv.size() - pos, capacity - size) characters of sv.substr(pos) are appended"); VF_ASSERT(r == &s, "append returns *this"); VF_REACH(); }
-/*@GROUP name=append_sv_pos props=C04,C02,C05 kind=K unwind=12 when=VF_N<=7@*/
+  POST(s, sp_splice(o, o.n, 0, src + pos, umin(m - pos, N - o.n)), "append(sv, pos): the first min(sv.size() - pos, capacity - size) characters of sv.substr(pos) are appended"); VF_ASSERT(r == &s, "append returns *this"); VF_REACH(); }
+/*@GROUP name=append_sv_pos props=C04,C02,C05 kind=K unwind=11 when=VF_N<=7@*/
 H_APPEND_SV_POS(h_append_sv_pos, ((void)0))
-/*@GROUP name=append_sv_pos_u21 props=C04,C02,C05 kind=K unwind=21 when=7<VF_N<=16@*/
-H_APPEND_SV_POS(h_append_sv_pos_u21, ((void)0))
-/*@GROUP name=append_sv_pos_u36 props=C04,C02,C05 kind=K unwind=36 when=VF_N>16 tier=thorough timeout=3000@*/
-H_APPEND_SV_POS(h_append_sv_pos_u36, ((void)0))
+/*@GROUP name=append_sv_pos_m props=C04,C02,C05 kind=K unwind=20 when=7<VF_N<=16@*/
+H_APPEND_SV_POS(h_append_sv_pos_m, ((void)0))
+/*@GROUP name=append_sv_pos_w props=C04,C02,C05 kind=K unwind=35 when=VF_N>16 tier=thorough timeout=3000@*/
+H_APPEND_SV_POS(h_append_sv_pos_w, ((void)0))
 
 /*@COMMON@*/
 #define H_POP_BACK(NAME, KNOWN) void NAME(void) { ARB(s); view_t o = view_of(&s); __CPROVER_assume(o.n > 0); s_pop_back(&s); \
   POST(s, sp_splice(o, o.n - 1, 1, o.a, 0), "pop_back: the last character is removed, the prefix is unchanged"); VF_REACH(); }
-/*@GROUP name=pop_back props=C04,C02,C05 kind=K unwind=12 when=VF_N<=7@*/
+/*@GROUP name=pop_back props=C04,C02,C05 kind=K unwind=11 when=VF_N<=7@*/
 H_POP_BACK(h_pop_back, ((void)0))
-/*@GROUP name=pop_back_u21 props=C04,C02,C05 kind=K unwind=21 when=7<VF_N<=16@*/
-H_POP_BACK(h_pop_back_u21, ((void)0))
-/*@GROUP name=pop_back_u36 props=C04,C02,C05 kind=K unwind=36 when=VF_N>16 tier=thorough timeout=3000@*/
-H_POP_BACK(h_pop_back_u36, ((void)0))
+/*@GROUP name=pop_back_m props=C04,C02,C05 kind=K unwind=20 when=7<VF_N<=16@*/
+H_POP_BACK(h_pop_back_m, ((void)0))
+/*@GROUP name=pop_back_w props=C04,C02,C05 kind=K unwind=35 when=VF_N>16 tier=thorough timeout=3000@*/
+H_POP_BACK(h_pop_back_w, ((void)0))
 
 /*@COMMON@*/
 /* ---- insert (index forms only: the iterator forms are commented out in tetl).  insert = append + rotate, and append clamps: an insertion that
@@ -343,57 +344,57 @@ H_POP_BACK(h_pop_back_u36, ((void)0))
 #define H_INSERT_FILL(NAME, KNOWN) void NAME(void) { ARB(s); VF_INPUT(unsigned char, p); VF_INPUT(unsigned char, c); VF_INPUT(char, ch); view_t o = view_of(&s); fill_t f = sp_fill(ch); __CPROVER_assume(p <= o.n && c <= N + 1); \
   KNOWN; S *r = s_insert_n_ch(&s, p, c, ch); \
   POST(s, sp_splice(o, p, 0, f.a, umin(c, N - o.n)), "insert(index, count, ch): min(count, capacity - size) copies of ch before index; prefix and shifted suffix unchanged"); VF_ASSERT(r == &s, "insert returns *this"); VF_REACH(); }
-/*@GROUP name=insert_fill props=C04,C02,C05 kind=K unwind=12 when=VF_N<=7 objbits=12 tier=thorough@*/
+/*@GROUP name=insert_fill props=C04,C02,C05 kind=K unwind=11 when=VF_N<=7 objbits=12 tier=thorough@*/
 H_INSERT_FILL(h_insert_fill, ((void)0))
-/*@GROUP name=insert_fill_u21 props=C04,C02,C05 kind=K unwind=21 when=7<VF_N<=16 objbits=12 tier=thorough@*/
-H_INSERT_FILL(h_insert_fill_u21, ((void)0))
-/*@GROUP name=insert_fill_u36 props=C04,C02,C05 kind=K unwind=36 when=VF_N>16 objbits=12 tier=thorough timeout=3000@*/
-H_INSERT_FILL(h_insert_fill_u36, ((void)0))
+/*@GROUP name=insert_fill_m props=C04,C02,C05 kind=K unwind=20 when=7<VF_N<=16 objbits=12 tier=thorough@*/
+H_INSERT_FILL(h_insert_fill_m, ((void)0))
+/*@GROUP name=insert_fill_w props=C04,C02,C05 kind=K unwind=35 when=VF_N>16 objbits=12 tier=thorough timeout=3000@*/
+H_INSERT_FILL(h_insert_fill_w, ((void)0))
 
 /*@COMMON@*/
 #define H_INSERT_PTR_N(NAME, KNOWN) void NAME(void) { ARB(s); VF_INPUT(unsigned char, p); VF_INPUT(unsigned char, c); view_t o = view_of(&s); __CPROVER_assume(p <= o.n && c <= N + 1); XBUF(char, src, c, N + 1); \
   KNOWN; S *r = s_insert_ptr_n(&s, p, src, c); \
-  POST(s, sp_splice(o, p, 0, src_in, umin(c, N - o.n)), "insert(index, s, count): the first min(count, capacity - size) source characters before index"); VF_ASSERT(r == &s, "insert returns *this"); VF_REACH(); }
-/*@GROUP name=insert_ptr_n props=C04,C02,C05 kind=K unwind=12 when=VF_N<=7 objbits=12@*/
+  POST(s, sp_splice(o, p, 0, src, umin(c, N - o.n)), "insert(index, s, count): the first min(count, capacity - size) source characters before index"); VF_ASSERT(r == &s, "insert returns *this"); VF_REACH(); }
+/*@GROUP name=insert_ptr_n props=C04,C02,C05 kind=K unwind=11 when=VF_N<=7 objbits=12@*/
 H_INSERT_PTR_N(h_insert_ptr_n, ((void)0))
-/*@GROUP name=insert_ptr_n_u21 props=C04,C02,C05 kind=K unwind=21 when=7<VF_N<=16 objbits=12 tier=thorough@*/
-H_INSERT_PTR_N(h_insert_ptr_n_u21, ((void)0))
-/*@GROUP name=insert_ptr_n_u36 props=C04,C02,C05 kind=K unwind=36 when=VF_N>16 objbits=12 tier=thorough timeout=3000@*/
-H_INSERT_PTR_N(h_insert_ptr_n_u36, ((void)0))
+/*@GROUP name=insert_ptr_n_m props=C04,C02,C05 kind=K unwind=20 when=7<VF_N<=16 objbits=12 tier=thorough@*/
+H_INSERT_PTR_N(h_insert_ptr_n_m, ((void)0))
+/*@GROUP name=insert_ptr_n_w props=C04,C02,C05 kind=K unwind=35 when=VF_N>16 objbits=12 tier=thorough timeout=3000@*/
+H_INSERT_PTR_N(h_insert_ptr_n_w, ((void)0))
 
 /*@COMMON@*/
 #define H_INSERT_SV(NAME, KNOWN) void NAME(void) { ARB(s); VF_INPUT(unsigned char, p); VF_INPUT(unsigned char, c); view_t o = view_of(&s); __CPROVER_assume(p <= o.n && c <= N + 1); XBUF(char, src, c, N + 1); \
   KNOWN; S *r = s_insert_sv(&s, p, src, c); \
-  POST(s, sp_splice(o, p, 0, src_in, umin(c, N - o.n)), "insert(index, string_view): the first min(sv.size(), capacity - size) characters before index"); VF_ASSERT(r == &s, "insert returns *this"); VF_REACH(); }
-/*@GROUP name=insert_sv props=C04,C02,C05 kind=K unwind=12 when=VF_N<=7 objbits=12@*/
+  POST(s, sp_splice(o, p, 0, src, umin(c, N - o.n)), "insert(index, string_view): the first min(sv.size(), capacity - size) characters before index"); VF_ASSERT(r == &s, "insert returns *this"); VF_REACH(); }
+/*@GROUP name=insert_sv props=C04,C02,C05 kind=K unwind=11 when=VF_N<=7 objbits=12@*/
 H_INSERT_SV(h_insert_sv, ((void)0))
-/*@GROUP name=insert_sv_u21 props=C04,C02,C05 kind=K unwind=21 when=7<VF_N<=16 objbits=12 tier=thorough@*/
-H_INSERT_SV(h_insert_sv_u21, ((void)0))
-/*@GROUP name=insert_sv_u36 props=C04,C02,C05 kind=K unwind=36 when=VF_N>16 objbits=12 tier=thorough timeout=3000@*/
-H_INSERT_SV(h_insert_sv_u36, ((void)0))
+/*@GROUP name=insert_sv_m props=C04,C02,C05 kind=K unwind=20 when=7<VF_N<=16 objbits=12 tier=thorough@*/
+H_INSERT_SV(h_insert_sv_m, ((void)0))
+/*@GROUP name=insert_sv_w props=C04,C02,C05 kind=K unwind=35 when=VF_N>16 objbits=12 tier=thorough timeout=3000@*/
+H_INSERT_SV(h_insert_sv_w, ((void)0))
 
 /*@COMMON@*/
 #define H_INSERT_CSTR(NAME, KNOWN) void NAME(void) { ARB(s); VF_INPUT(unsigned char, p); VF_INPUT(unsigned char, c); view_t o = view_of(&s); __CPROVER_assume(p <= o.n && c <= N + 1); CSTR(src, c, N + 1); \
   KNOWN; S *r = s_insert_cstr(&s, p, src); \
-  POST(s, sp_splice(o, p, 0, src_in, umin(c, N - o.n)), "insert(index, char const*): the first min(strlen, capacity - size) characters before index"); VF_ASSERT(r == &s, "insert returns *this"); VF_REACH(); }
-/*@GROUP name=insert_cstr props=C04,C02,C05 kind=K unwind=12 when=VF_N<=7 objbits=12@*/
+  POST(s, sp_splice(o, p, 0, src, umin(c, N - o.n)), "insert(index, char const*): the first min(strlen, capacity - size) characters before index"); VF_ASSERT(r == &s, "insert returns *this"); VF_REACH(); }
+/*@GROUP name=insert_cstr props=C04,C02,C05 kind=K unwind=11 when=VF_N<=7 objbits=12@*/
 H_INSERT_CSTR(h_insert_cstr, ((void)0))
-/*@GROUP name=insert_cstr_u21 props=C04,C02,C05 kind=K unwind=21 when=7<VF_N<=16 objbits=12 tier=thorough@*/
-H_INSERT_CSTR(h_insert_cstr_u21, ((void)0))
-/*@GROUP name=insert_cstr_u36 props=C04,C02,C05 kind=K unwind=36 when=VF_N>16 objbits=12 tier=thorough timeout=3000@*/
-H_INSERT_CSTR(h_insert_cstr_u36, ((void)0))
+/*@GROUP name=insert_cstr_m props=C04,C02,C05 kind=K unwind=20 when=7<VF_N<=16 objbits=12 tier=thorough@*/
+H_INSERT_CSTR(h_insert_cstr_m, ((void)0))
+/*@GROUP name=insert_cstr_w props=C04,C02,C05 kind=K unwind=35 when=VF_N>16 objbits=12 tier=thorough timeout=3000@*/
+H_INSERT_CSTR(h_insert_cstr_w, ((void)0))
 
 /*@COMMON@*/
 #define H_INSERT_STR(NAME, KNOWN) void NAME(void) { ARB(s); ARB(t); VF_INPUT(unsigned char, p); view_t o = view_of(&s), b = view_of(&t); __CPROVER_assume(p <= o.n); \
   KNOWN; S *r = s_insert_str(&s, p, &t); \
   POST(s, sp_splice(o, p, 0, b.a, umin(b.n, N - o.n)), "insert(index, str): the first min(str.size(), capacity - size) characters of str before index"); VF_ASSERT(r == &s, "insert returns *this"); \
   VF_ASSERT(view_eq(view_of(&t), b) && WF(t), "the source string is unchanged"); VF_REACH(); }
-/*@GROUP name=insert_str props=C04,C02,C05 kind=K unwind=12 when=VF_N<=7 objbits=12@*/
+/*@GROUP name=insert_str props=C04,C02,C05 kind=K unwind=11 when=VF_N<=7 objbits=12@*/
 H_INSERT_STR(h_insert_str, ((void)0))
-/*@GROUP name=insert_str_u21 props=C04,C02,C05 kind=K unwind=21 when=7<VF_N<=16 objbits=12 tier=thorough@*/
-H_INSERT_STR(h_insert_str_u21, ((void)0))
-/*@GROUP name=insert_str_u36 props=C04,C02,C05 kind=K unwind=36 when=VF_N>16 objbits=12 tier=thorough timeout=3000@*/
-H_INSERT_STR(h_insert_str_u36, ((void)0))
+/*@GROUP name=insert_str_m props=C04,C02,C05 kind=K unwind=20 when=7<VF_N<=16 objbits=12 tier=thorough@*/
+H_INSERT_STR(h_insert_str_m, ((void)0))
+/*@GROUP name=insert_str_w props=C04,C02,C05 kind=K unwind=35 when=VF_N>16 objbits=12 tier=thorough timeout=3000@*/
+H_INSERT_STR(h_insert_str_w, ((void)0))
 
 /*@COMMON@*/
 #define H_INSERT_STR_SUB(NAME, KNOWN) void NAME(void) { ARB(s); ARB(t); VF_INPUT(unsigned char, p); VF_INPUT(unsigned char, pos); VF_INPUT(unsigned long, cnt); VF_INPUT_BOOL(dflt); view_t o = view_of(&s), b = view_of(&t); \
@@ -401,24 +402,24 @@ H_INSERT_STR(h_insert_str_u36, ((void)0))
   KNOWN; S *r = dflt ? s_insert_str_pos(&s, p, &t, pos) : s_insert_str_pos_n(&s, p, &t, pos, cnt); \
   POST(s, sp_splice(o, p, 0, b.a + pos, umin(rlen, N - o.n)), "insert(index, str, pos[, n]): the first min(rlen, capacity - size) characters of str.substr(pos, n) before index"); VF_ASSERT(r == &s, "insert returns *this"); \
   VF_ASSERT(view_eq(view_of(&t), b) && WF(t), "the source string is unchanged"); VF_REACH(); }
-/*@GROUP name=insert_str_sub props=C04,C02,C05 kind=K unwind=12 when=VF_N<=7 objbits=12 tier=thorough@*/
+/*@GROUP name=insert_str_sub props=C04,C02,C05 kind=K unwind=11 when=VF_N<=7 objbits=12 tier=thorough@*/
 H_INSERT_STR_SUB(h_insert_str_sub, ((void)0))
-/*@GROUP name=insert_str_sub_u21 props=C04,C02,C05 kind=K unwind=21 when=7<VF_N<=16 objbits=12 tier=thorough@*/
-H_INSERT_STR_SUB(h_insert_str_sub_u21, ((void)0))
-/*@GROUP name=insert_str_sub_u36 props=C04,C02,C05 kind=K unwind=36 when=VF_N>16 objbits=12 tier=thorough timeout=3000@*/
-H_INSERT_STR_SUB(h_insert_str_sub_u36, ((void)0))
+/*@GROUP name=insert_str_sub_m props=C04,C02,C05 kind=K unwind=20 when=7<VF_N<=16 objbits=12 tier=thorough@*/
+H_INSERT_STR_SUB(h_insert_str_sub_m, ((void)0))
+/*@GROUP name=insert_str_sub_w props=C04,C02,C05 kind=K unwind=35 when=VF_N>16 objbits=12 tier=thorough timeout=3000@*/
+H_INSERT_STR_SUB(h_insert_str_sub_w, ((void)0))
 
 /*@COMMON@*/
 #define H_INSERT_SV_SUB(NAME, KNOWN) void NAME(void) { ARB(s); VF_INPUT(unsigned char, p); VF_INPUT(unsigned char, m); VF_INPUT(unsigned char, pos); VF_INPUT(unsigned long, cnt); VF_INPUT_BOOL(dflt); view_t o = view_of(&s); \
   __CPROVER_assume(p <= o.n && m <= N + 1 && pos <= m); XBUF(char, src, m, N + 1); if (dflt) cnt = NPOS; unsigned long rlen = umin(cnt, m - pos); \
   KNOWN; S *r = dflt ? s_insert_sv_pos(&s, p, src, m, pos) : s_insert_sv_pos_n(&s, p, src, m, pos, cnt); \
-  POST(s, sp_splice(o, p, 0, src_in + pos, umin(rlen, N - o.n)), "insert(index, sv, pos[, n]): the first min(rlen, capacity - size) characters of sv.substr(pos, n) before index"); VF_ASSERT(r == &s, "insert returns *this"); VF_REACH(); }
-/*@GROUP name=insert_sv_sub props=C04,C02,C05 kind=K unwind=12 when=VF_N<=7 objbits=12 tier=thorough@*/
+  POST(s, sp_splice(o, p, 0, src + pos, umin(rlen, N - o.n)), "insert(index, sv, pos[, n]): the first min(rlen, capacity - size) characters of sv.substr(pos, n) before index"); VF_ASSERT(r == &s, "insert returns *this"); VF_REACH(); }
+/*@GROUP name=insert_sv_sub props=C04,C02,C05 kind=K unwind=11 when=VF_N<=7 objbits=12 tier=thorough@*/
 H_INSERT_SV_SUB(h_insert_sv_sub, ((void)0))
-/*@GROUP name=insert_sv_sub_u21 props=C04,C02,C05 kind=K unwind=21 when=7<VF_N<=16 objbits=12 tier=thorough@*/
-H_INSERT_SV_SUB(h_insert_sv_sub_u21, ((void)0))
-/*@GROUP name=insert_sv_sub_u36 props=C04,C02,C05 kind=K unwind=36 when=VF_N>16 objbits=12 tier=thorough timeout=3000@*/
-H_INSERT_SV_SUB(h_insert_sv_sub_u36, ((void)0))
+/*@GROUP name=insert_sv_sub_m props=C04,C02,C05 kind=K unwind=20 when=7<VF_N<=16 objbits=12 tier=thorough@*/
+H_INSERT_SV_SUB(h_insert_sv_sub_m, ((void)0))
+/*@GROUP name=insert_sv_sub_w props=C04,C02,C05 kind=K unwind=35 when=VF_N>16 objbits=12 tier=thorough timeout=3000@*/
+H_INSERT_SV_SUB(h_insert_sv_sub_w, ((void)0))
 
 /*@COMMON@*/
 /* ---- erase */
@@ -429,12 +430,12 @@ H_INSERT_SV_SUB(h_insert_sv_sub_u36, ((void)0))
   __CPROVER_assume(p <= o.n); unsigned long xlen = umin(cnt, o.n - p); \
   KNOWN; S *r = which == 0 ? s_erase_idx(&s, p, cnt) : which == 1 ? s_erase_idx1(&s, p) : s_erase_all(&s); \
   POST(s, sp_splice(o, p, xlen, o.a, 0), "erase(index = 0, count = npos): min(count, size - index) characters removed, the suffix moves down"); VF_ASSERT(r == &s, "erase returns *this"); VF_REACH(); }
-/*@GROUP name=erase_idx props=C04,C02,C05 kind=K unwind=12 when=VF_N<=7 objbits=12@*/
+/*@GROUP name=erase_idx props=C04,C02,C05 kind=K unwind=11 when=VF_N<=7 objbits=12@*/
 H_ERASE_IDX(h_erase_idx, VF_KNOWN(C05_erase_whole, xlen == o.n))
-/*@GROUP name=erase_idx_u21 props=C04,C02,C05 kind=K unwind=21 when=7<VF_N<=16 objbits=12 solver=kissat tier=thorough@*/
-H_ERASE_IDX(h_erase_idx_u21, VF_KNOWN(C05_erase_whole, xlen == o.n))
-/*@GROUP name=erase_idx_u36 props=C04,C02,C05 kind=K unwind=36 when=VF_N>16 objbits=12 tier=thorough timeout=3000@*/
-H_ERASE_IDX(h_erase_idx_u36, VF_KNOWN(C05_erase_whole, xlen == o.n))
+/*@GROUP name=erase_idx_m props=C04,C02,C05 kind=K unwind=20 when=7<VF_N<=16 objbits=12 solver=kissat tier=thorough@*/
+H_ERASE_IDX(h_erase_idx_m, VF_KNOWN(C05_erase_whole, xlen == o.n))
+/*@GROUP name=erase_idx_w props=C04,C02,C05 kind=K unwind=35 when=VF_N>16 objbits=12 tier=thorough timeout=3000@*/
+H_ERASE_IDX(h_erase_idx_w, VF_KNOWN(C05_erase_whole, xlen == o.n))
 
 /*@COMMON@*/
 #define H_ERASE_IT(NAME, KNOWN) void NAME(void) { ARB(s); VF_INPUT(unsigned char, f); VF_INPUT(unsigned char, l); VF_INPUT_BOOL(one); view_t o = view_of(&s); \
@@ -442,12 +443,12 @@ H_ERASE_IDX(h_erase_idx_u36, VF_KNOWN(C05_erase_whole, xlen == o.n))
   KNOWN; char *r = one ? s_erase_it(&s, data_of(&s) + f) : s_erase_range(&s, data_of(&s) + f, data_of(&s) + l); \
   POST(s, sp_splice(o, f, l - f, o.a, 0), "erase(position) / erase(first, last): the range is removed, the suffix moves down"); \
   VF_ASSERT(r == data_of(&s) + f, "erase returns the iterator to the character that followed the erased range (begin() + first)"); VF_REACH(); }
-/*@GROUP name=erase_it props=C04,C02,C05 kind=K unwind=12 when=VF_N<=7 objbits=12@*/
+/*@GROUP name=erase_it props=C04,C02,C05 kind=K unwind=11 when=VF_N<=7 objbits=12@*/
 H_ERASE_IT(h_erase_it, VF_KNOWN(C05_erase_whole, l - f == o.n))
-/*@GROUP name=erase_it_u21 props=C04,C02,C05 kind=K unwind=21 when=7<VF_N<=16 objbits=12 solver=kissat tier=thorough@*/
-H_ERASE_IT(h_erase_it_u21, VF_KNOWN(C05_erase_whole, l - f == o.n))
-/*@GROUP name=erase_it_u36 props=C04,C02,C05 kind=K unwind=36 when=VF_N>16 objbits=12 tier=thorough timeout=3000@*/
-H_ERASE_IT(h_erase_it_u36, VF_KNOWN(C05_erase_whole, l - f == o.n))
+/*@GROUP name=erase_it_m props=C04,C02,C05 kind=K unwind=20 when=7<VF_N<=16 objbits=12 solver=kissat tier=thorough@*/
+H_ERASE_IT(h_erase_it_m, VF_KNOWN(C05_erase_whole, l - f == o.n))
+/*@GROUP name=erase_it_w props=C04,C02,C05 kind=K unwind=35 when=VF_N>16 objbits=12 tier=thorough timeout=3000@*/
+H_ERASE_IT(h_erase_it_w, VF_KNOWN(C05_erase_whole, l - f == o.n))
 
 /*@COMMON@*/
 #define H_ERASE_VALUE(NAME, KNOWN) void NAME(void) { ARB(s); VF_INPUT(char, x); VF_INPUT_BOOL(pred); view_t o = view_of(&s); view_t e = sp_empty(); \
@@ -455,12 +456,12 @@ H_ERASE_IT(h_erase_it_u36, VF_KNOWN(C05_erase_whole, l - f == o.n))
   KNOWN; unsigned long r = pred ? s_erase_if(&s) : s_erase_value(&s, x); \
   POST(s, e, "erase(c, value) / erase_if(c, pred): exactly the non-matching characters survive, in their original order"); \
   VF_ASSERT(r == o.n - e.n, "erase / erase_if return the number of removed characters"); VF_REACH(); }
-/*@GROUP name=erase_value props=C04,C02 kind=K unwind=12 when=VF_N<=7 objbits=12@*/
+/*@GROUP name=erase_value props=C04,C02 kind=K unwind=11 when=VF_N<=7 objbits=12@*/
 H_ERASE_VALUE(h_erase_value, VF_KNOWN(C05_erase_whole, e.n == 0))
-/*@GROUP name=erase_value_u21 props=C04,C02 kind=K unwind=21 when=7<VF_N<=16 objbits=12 solver=kissat tier=thorough@*/
-H_ERASE_VALUE(h_erase_value_u21, VF_KNOWN(C05_erase_whole, e.n == 0))
-/*@GROUP name=erase_value_u36 props=C04,C02 kind=K unwind=36 when=VF_N>16 objbits=12 tier=thorough timeout=3000@*/
-H_ERASE_VALUE(h_erase_value_u36, VF_KNOWN(C05_erase_whole, e.n == 0))
+/*@GROUP name=erase_value_m props=C04,C02 kind=K unwind=20 when=7<VF_N<=16 objbits=12 solver=kissat tier=thorough@*/
+H_ERASE_VALUE(h_erase_value_m, VF_KNOWN(C05_erase_whole, e.n == 0))
+/*@GROUP name=erase_value_w props=C04,C02 kind=K unwind=35 when=VF_N>16 objbits=12 tier=thorough timeout=3000@*/
+H_ERASE_VALUE(h_erase_value_w, VF_KNOWN(C05_erase_whole, e.n == 0))
 
 /*@COMMON@*/
 /* ---- replace.  Reference: [string.replace] (xlen = min(n1, size - pos); result = prefix + new text + suffix, the size changes by m - xlen).
@@ -472,52 +473,52 @@ H_ERASE_VALUE(h_erase_value_u36, VF_KNOWN(C05_erase_whole, e.n == 0))
   __CPROVER_assume(p <= o.n); unsigned long xlen = umin(cnt, o.n - p); __CPROVER_assume(o.n - xlen + b.n <= N); \
   KNOWN; S *r = s_replace_str(&s, p, cnt, &t); \
   POST(s, sp_splice(o, p, xlen, b.a, b.n), "replace(pos, n1, str): [pos, pos + xlen) is replaced by str"); VF_ASSERT(r == &s, "replace returns *this"); VF_REACH(); }
-/*@GROUP name=replace_str props=C04,C02,C05 kind=K unwind=12 when=VF_N<=7@*/
+/*@GROUP name=replace_str props=C04,C02,C05 kind=K unwind=11 when=VF_N<=7@*/
 H_REPLACE_STR(h_replace_str, VF_KNOWN(C04_replace_not_std, !(b.n == xlen && cnt < o.n - p)))
-/*@GROUP name=replace_str_u21 props=C04,C02,C05 kind=K unwind=21 when=7<VF_N<=16@*/
-H_REPLACE_STR(h_replace_str_u21, VF_KNOWN(C04_replace_not_std, !(b.n == xlen && cnt < o.n - p)))
-/*@GROUP name=replace_str_u36 props=C04,C02,C05 kind=K unwind=36 when=VF_N>16 tier=thorough timeout=3000@*/
-H_REPLACE_STR(h_replace_str_u36, VF_KNOWN(C04_replace_not_std, !(b.n == xlen && cnt < o.n - p)))
+/*@GROUP name=replace_str_m props=C04,C02,C05 kind=K unwind=20 when=7<VF_N<=16@*/
+H_REPLACE_STR(h_replace_str_m, VF_KNOWN(C04_replace_not_std, !(b.n == xlen && cnt < o.n - p)))
+/*@GROUP name=replace_str_w props=C04,C02,C05 kind=K unwind=35 when=VF_N>16 tier=thorough timeout=3000@*/
+H_REPLACE_STR(h_replace_str_w, VF_KNOWN(C04_replace_not_std, !(b.n == xlen && cnt < o.n - p)))
 
 /*@COMMON@*/
 #define H_REPLACE_STR_SUB(NAME, KNOWN) void NAME(void) { ARB(s); ARB(t); VF_INPUT(unsigned char, p); VF_INPUT(unsigned long, cnt); VF_INPUT(unsigned char, pos2); VF_INPUT(unsigned long, cnt2); VF_INPUT_BOOL(dflt); view_t o = view_of(&s), b = view_of(&t); \
   if (dflt) cnt2 = NPOS; __CPROVER_assume(p <= o.n && pos2 <= b.n); unsigned long xlen = umin(cnt, o.n - p), rlen = umin(cnt2, b.n - pos2); __CPROVER_assume(o.n - xlen + rlen <= N); \
   KNOWN; S *r = dflt ? s_replace_str_pos(&s, p, cnt, &t, pos2) : s_replace_str_pos_n(&s, p, cnt, &t, pos2, cnt2); \
   POST(s, sp_splice(o, p, xlen, b.a + pos2, rlen), "replace(pos, n1, str, pos2[, n2]): [pos, pos + xlen) is replaced by str.substr(pos2, n2)"); VF_ASSERT(r == &s, "replace returns *this"); VF_REACH(); }
-/*@GROUP name=replace_str_sub props=C04,C02,C05 kind=K unwind=12 when=VF_N<=7@*/
+/*@GROUP name=replace_str_sub props=C04,C02,C05 kind=K unwind=11 when=VF_N<=7@*/
 H_REPLACE_STR_SUB(h_replace_str_sub, VF_KNOWN(C04_replace_not_std, !(rlen == xlen && p < o.n && pos2 < b.n && cnt <= NPOS - p && cnt2 <= NPOS - pos2)))
-/*@GROUP name=replace_str_sub_u21 props=C04,C02,C05 kind=K unwind=21 when=7<VF_N<=16@*/
-H_REPLACE_STR_SUB(h_replace_str_sub_u21, VF_KNOWN(C04_replace_not_std, !(rlen == xlen && p < o.n && pos2 < b.n && cnt <= NPOS - p && cnt2 <= NPOS - pos2)))
-/*@GROUP name=replace_str_sub_u36 props=C04,C02,C05 kind=K unwind=36 when=VF_N>16 tier=thorough timeout=3000@*/
-H_REPLACE_STR_SUB(h_replace_str_sub_u36, VF_KNOWN(C04_replace_not_std, !(rlen == xlen && p < o.n && pos2 < b.n && cnt <= NPOS - p && cnt2 <= NPOS - pos2)))
+/*@GROUP name=replace_str_sub_m props=C04,C02,C05 kind=K unwind=20 when=7<VF_N<=16@*/
+H_REPLACE_STR_SUB(h_replace_str_sub_m, VF_KNOWN(C04_replace_not_std, !(rlen == xlen && p < o.n && pos2 < b.n && cnt <= NPOS - p && cnt2 <= NPOS - pos2)))
+/*@GROUP name=replace_str_sub_w props=C04,C02,C05 kind=K unwind=35 when=VF_N>16 tier=thorough timeout=3000@*/
+H_REPLACE_STR_SUB(h_replace_str_sub_w, VF_KNOWN(C04_replace_not_std, !(rlen == xlen && p < o.n && pos2 < b.n && cnt <= NPOS - p && cnt2 <= NPOS - pos2)))
 
 /*@COMMON@*/
 #define H_REPLACE_BUF(NAME, KNOWN) void NAME(void) { ARB(s); VF_INPUT(unsigned char, p); VF_INPUT(unsigned long, cnt); VF_INPUT(unsigned char, c); VF_INPUT_BOOL(cs); view_t o = view_of(&s); \
   __CPROVER_assume(p <= o.n && c <= N); unsigned long xlen = umin(cnt, o.n - p); __CPROVER_assume(o.n - xlen + c <= N); \
-  XBUF(char, src, (unsigned long)c + cs, N + 1); if (cs) { __CPROVER_assume(src_in[c] == 0); for (int j = 0; j < N; ++j) __CPROVER_assume(j >= c || src_in[j] != 0); } \
+  XBUF(char, src, (unsigned long)c + cs, N + 1); if (cs) { __CPROVER_assume(src[c] == 0); for (int j = 0; j < N; ++j) __CPROVER_assume(j >= c || src[j] != 0); } \
   KNOWN; S *r = cs ? s_replace_cstr(&s, p, cnt, src) : s_replace_ptr_n(&s, p, cnt, src, c); \
-  POST(s, sp_splice(o, p, xlen, src_in, c), "replace(pos, n1, s, n2) / replace(pos, n1, char const*): [pos, pos + xlen) is replaced by the source characters"); VF_ASSERT(r == &s, "replace returns *this"); VF_REACH(); }
-/*@GROUP name=replace_buf props=C04,C02,C05 kind=K unwind=12 when=VF_N<=7@*/
+  POST(s, sp_splice(o, p, xlen, src, c), "replace(pos, n1, s, n2) / replace(pos, n1, char const*): [pos, pos + xlen) is replaced by the source characters"); VF_ASSERT(r == &s, "replace returns *this"); VF_REACH(); }
+/*@GROUP name=replace_buf props=C04,C02,C05 kind=K unwind=11 when=VF_N<=7@*/
 H_REPLACE_BUF(h_replace_buf, VF_KNOWN(C04_replace_not_std, !(c == xlen && cnt < o.n - p)))
-/*@GROUP name=replace_buf_u21 props=C04,C02,C05 kind=K unwind=21 when=7<VF_N<=16@*/
-H_REPLACE_BUF(h_replace_buf_u21, VF_KNOWN(C04_replace_not_std, !(c == xlen && cnt < o.n - p)))
-/*@GROUP name=replace_buf_u36 props=C04,C02,C05 kind=K unwind=36 when=VF_N>16 tier=thorough timeout=3000@*/
-H_REPLACE_BUF(h_replace_buf_u36, VF_KNOWN(C04_replace_not_std, !(c == xlen && cnt < o.n - p)))
+/*@GROUP name=replace_buf_m props=C04,C02,C05 kind=K unwind=20 when=7<VF_N<=16@*/
+H_REPLACE_BUF(h_replace_buf_m, VF_KNOWN(C04_replace_not_std, !(c == xlen && cnt < o.n - p)))
+/*@GROUP name=replace_buf_w props=C04,C02,C05 kind=K unwind=35 when=VF_N>16 tier=thorough timeout=3000@*/
+H_REPLACE_BUF(h_replace_buf_w, VF_KNOWN(C04_replace_not_std, !(c == xlen && cnt < o.n - p)))
 
 /*@COMMON@*/
 #define H_REPLACE_IT(NAME, KNOWN) void NAME(void) { ARB(s); ARB(t); VF_INPUT(unsigned char, f); VF_INPUT(unsigned char, l); VF_INPUT(unsigned char, c); VF_INPUT(char, ch); VF_INPUT(unsigned char, which); view_t o = view_of(&s), b = view_of(&t); fill_t fl = sp_fill(ch); \
-  _Bool cs = which == 2; __CPROVER_assume(f <= l && l <= o.n && c <= N); XBUF(char, src, (unsigned long)c + cs, N + 1); if (cs) { __CPROVER_assume(src_in[c] == 0); for (int j = 0; j < N; ++j) __CPROVER_assume(j >= c || src_in[j] != 0); } \
+  _Bool cs = which == 2; __CPROVER_assume(f <= l && l <= o.n && c <= N); XBUF(char, src, (unsigned long)c + cs, N + 1); if (cs) { __CPROVER_assume(src[c] == 0); for (int j = 0; j < N; ++j) __CPROVER_assume(j >= c || src[j] != 0); } \
   unsigned long m = which == 0 ? b.n : c; __CPROVER_assume(o.n - (l - f) + m <= N); \
-  char nd[N + 2]; for (int j = 0; j < N + 2; ++j) nd[j] = which == 0 ? (j <= N ? b.a[j] : 0) : which >= 3 ? ch : (j <= N + 1 ? src_in[j] : 0); \
+  char nd[N + 2]; for (int j = 0; j < N + 2; ++j) nd[j] = which == 0 ? (j <= N ? b.a[j] : 0) : which >= 3 ? ch : (j < c ? src[j] : 0); \
   KNOWN; char *pf = data_of(&s) + f, *pl = data_of(&s) + l; \
   S *r = which == 0 ? s_replace_it_str(&s, pf, pl, &t) : which == 1 ? s_replace_it_ptr_n(&s, pf, pl, src, c) : which == 2 ? s_replace_it_cstr(&s, pf, pl, src) : s_replace_it_n_ch(&s, pf, pl, c, ch); \
   POST(s, sp_splice(o, f, l - f, nd, m), "replace(first, last, str | s, n2 | char const* | n2, ch): [first, last) is replaced by the new characters"); VF_ASSERT(r == &s, "replace returns *this"); VF_REACH(); }
-/*@GROUP name=replace_it props=C04,C02,C05 kind=K unwind=12 when=VF_N<=7@*/
+/*@GROUP name=replace_it props=C04,C02,C05 kind=K unwind=11 when=VF_N<=7@*/
 H_REPLACE_IT(h_replace_it, VF_KNOWN(C04_replace_not_std, m != (unsigned long)(l - f)))
-/*@GROUP name=replace_it_u21 props=C04,C02,C05 kind=K unwind=21 when=7<VF_N<=16@*/
-H_REPLACE_IT(h_replace_it_u21, VF_KNOWN(C04_replace_not_std, m != (unsigned long)(l - f)))
-/*@GROUP name=replace_it_u36 props=C04,C02,C05 kind=K unwind=36 when=VF_N>16 tier=thorough timeout=3000@*/
-H_REPLACE_IT(h_replace_it_u36, VF_KNOWN(C04_replace_not_std, m != (unsigned long)(l - f)))
+/*@GROUP name=replace_it_m props=C04,C02,C05 kind=K unwind=20 when=7<VF_N<=16@*/
+H_REPLACE_IT(h_replace_it_m, VF_KNOWN(C04_replace_not_std, m != (unsigned long)(l - f)))
+/*@GROUP name=replace_it_w props=C04,C02,C05 kind=K unwind=35 when=VF_N>16 tier=thorough timeout=3000@*/
+H_REPLACE_IT(h_replace_it_w, VF_KNOWN(C04_replace_not_std, m != (unsigned long)(l - f)))
 
 /*@COMMON@*/
 /* ---- resize / clear / swap */
@@ -528,32 +529,32 @@ H_REPLACE_IT(h_replace_it_u36, VF_KNOWN(C04_replace_not_std, m != (unsigned long
   KNOWN; if (with_ch) s_resize_ch(&s, m, ch); else s_resize(&s, m); \
   unsigned long m2 = umin(m, N); view_t e = m2 <= o.n ? sp_splice(o, m2, o.n - m2, o.a, 0) : sp_splice(o, o.n, 0, f.a, m2 - o.n); \
   POST(s, e, "resize(count[, ch]): size() == min(count, capacity); the common prefix is kept, new characters are ch / char()"); VF_REACH(); }
-/*@GROUP name=resize props=C04,C02,C05 kind=K unwind=12 when=VF_N<=7@*/
+/*@GROUP name=resize props=C04,C02,C05 kind=K unwind=11 when=VF_N<=7@*/
 H_RESIZE(h_resize, VF_KNOWN(C04_resize_grow, o.n > 0 && m > o.n && m < N))
-/*@GROUP name=resize_u21 props=C04,C02,C05 kind=K unwind=21 when=7<VF_N<=16@*/
-H_RESIZE(h_resize_u21, VF_KNOWN(C04_resize_grow, o.n > 0 && m > o.n && m < N))
-/*@GROUP name=resize_u36 props=C04,C02,C05 kind=K unwind=36 when=VF_N>16 tier=thorough timeout=3000@*/
-H_RESIZE(h_resize_u36, VF_KNOWN(C04_resize_grow, o.n > 0 && m > o.n && m < N))
+/*@GROUP name=resize_m props=C04,C02,C05 kind=K unwind=20 when=7<VF_N<=16@*/
+H_RESIZE(h_resize_m, VF_KNOWN(C04_resize_grow, o.n > 0 && m > o.n && m < N))
+/*@GROUP name=resize_w props=C04,C02,C05 kind=K unwind=35 when=VF_N>16 tier=thorough timeout=3000@*/
+H_RESIZE(h_resize_w, VF_KNOWN(C04_resize_grow, o.n > 0 && m > o.n && m < N))
 
 /*@COMMON@*/
 #define H_CLEAR(NAME, KNOWN) void NAME(void) { ARB(s); s_clear(&s); POST(s, sp_empty(), "clear(): empty"); VF_ASSERT(s_size(&s) == 0 && s_empty(&s), "clear(): size() == 0"); CAPACITY_UNCHANGED(s); VF_REACH(); }
-/*@GROUP name=clear props=C04,C02 kind=K unwind=12 when=VF_N<=7@*/
+/*@GROUP name=clear props=C04,C02 kind=K unwind=11 when=VF_N<=7@*/
 H_CLEAR(h_clear, ((void)0))
-/*@GROUP name=clear_u21 props=C04,C02 kind=K unwind=21 when=7<VF_N<=16@*/
-H_CLEAR(h_clear_u21, ((void)0))
-/*@GROUP name=clear_u36 props=C04,C02 kind=K unwind=36 when=VF_N>16 tier=thorough timeout=3000@*/
-H_CLEAR(h_clear_u36, ((void)0))
+/*@GROUP name=clear_m props=C04,C02 kind=K unwind=20 when=7<VF_N<=16@*/
+H_CLEAR(h_clear_m, ((void)0))
+/*@GROUP name=clear_w props=C04,C02 kind=K unwind=35 when=VF_N>16 tier=thorough timeout=3000@*/
+H_CLEAR(h_clear_w, ((void)0))
 
 /*@COMMON@*/
 #define H_SWAP(NAME, KNOWN) void NAME(void) { ARB(a); ARB(b); VF_INPUT_BOOL(fr); view_t oa = view_of(&a), ob = view_of(&b); \
   KNOWN; if (fr) s_swap_free(&a, &b); else s_swap(&a, &b); \
   VF_ASSERT(WF(a) && WF(b), "C04: wf after swap: both strings null-terminated, size() <= capacity()"); VF_ASSERT(view_eq(view_of(&a), ob) && view_eq(view_of(&b), oa), "C04: swap exchanges the two strings"); VF_REACH(); }
-/*@GROUP name=swap props=C04,C02 kind=K unwind=12 when=VF_N<=7@*/
+/*@GROUP name=swap props=C04,C02 kind=K unwind=11 when=VF_N<=7@*/
 H_SWAP(h_swap, VF_KNOWN(C04_swap_tiny_full, N < 16 && oa.n != ob.n && (oa.n == N || ob.n == N)))
-/*@GROUP name=swap_u21 props=C04,C02 kind=K unwind=21 when=7<VF_N<=16@*/
-H_SWAP(h_swap_u21, VF_KNOWN(C04_swap_tiny_full, N < 16 && oa.n != ob.n && (oa.n == N || ob.n == N)))
-/*@GROUP name=swap_u36 props=C04,C02 kind=K unwind=36 when=VF_N>16 tier=thorough timeout=3000@*/
-H_SWAP(h_swap_u36, VF_KNOWN(C04_swap_tiny_full, N < 16 && oa.n != ob.n && (oa.n == N || ob.n == N)))
+/*@GROUP name=swap_m props=C04,C02 kind=K unwind=20 when=7<VF_N<=16@*/
+H_SWAP(h_swap_m, VF_KNOWN(C04_swap_tiny_full, N < 16 && oa.n != ob.n && (oa.n == N || ob.n == N)))
+/*@GROUP name=swap_w props=C04,C02 kind=K unwind=35 when=VF_N>16 tier=thorough timeout=3000@*/
+H_SWAP(h_swap_w, VF_KNOWN(C04_swap_tiny_full, N < 16 && oa.n != ob.n && (oa.n == N || ob.n == N)))
 
 /*@COMMON@*/
 /* ---- substr / copy.  Documented deviation from [string.substr]/[string.copy]: pos > size() returns an empty string / copies nothing (std throws). */
@@ -565,28 +566,28 @@ H_SWAP(h_swap_u36, VF_KNOWN(C04_swap_tiny_full, N < 16 && oa.n != ob.n && (oa.n 
   unsigned long p2 = umin(pos, o.n); unsigned long rlen = pos > o.n ? 0 : umin(cnt, o.n - pos); \
   POST(t, sp_splice(sp_empty(), 0, 0, o.a + p2, rlen), "substr(pos = 0, n = npos): the characters [pos, pos + min(n, size - pos)); empty for pos > size (documented)"); \
   VF_ASSERT(WF(s) && view_eq(view_of(&s), o), "substr leaves *this unchanged"); VF_REACH(); }
-/*@GROUP name=substr props=C04,C02,C05 kind=K unwind=12 when=VF_N<=7@*/
+/*@GROUP name=substr props=C04,C02,C05 kind=K unwind=11 when=VF_N<=7@*/
 H_SUBSTR(h_substr, ((void)0))
-/*@GROUP name=substr_u21 props=C04,C02,C05 kind=K unwind=21 when=7<VF_N<=16@*/
-H_SUBSTR(h_substr_u21, ((void)0))
-/*@GROUP name=substr_u36 props=C04,C02,C05 kind=K unwind=36 when=VF_N>16 tier=thorough timeout=3000@*/
-H_SUBSTR(h_substr_u36, ((void)0))
+/*@GROUP name=substr_m props=C04,C02,C05 kind=K unwind=20 when=7<VF_N<=16@*/
+H_SUBSTR(h_substr_m, ((void)0))
+/*@GROUP name=substr_w props=C04,C02,C05 kind=K unwind=35 when=VF_N>16 tier=thorough timeout=3000@*/
+H_SUBSTR(h_substr_w, ((void)0))
 
 /*@COMMON@*/
 #define H_COPY(NAME, KNOWN) void NAME(void) { ARB(s); VF_INPUT(unsigned long, pos); VF_INPUT(unsigned long, cnt); VF_INPUT_BOOL(dflt); view_t o = view_of(&s); if (dflt) pos = 0; \
   unsigned long p2 = umin(pos, o.n); unsigned long rlen = pos > o.n ? 0 : umin(cnt, o.n - pos); \
-  VF_INPUT_ARR(char, dst_in, N + 1); char *dst = XALLOC(rlen); for (unsigned long j = 0; j < rlen; ++j) dst[j] = dst_in[j]; \
+  XBUF(char, dst, rlen, N); \
   unsigned long r = dflt ? s_copy0(&s, dst, cnt) : s_copy(&s, dst, cnt, pos); \
   VF_ASSERT(r == rlen, "C04: copy(dest, n, pos = 0) returns min(n, size - pos); 0 for pos > size (documented)"); \
   _Bool same = 1; for (int j = 0; j < N; ++j) if ((unsigned long)j < rlen && dst[j] != o.a[p2 + (unsigned long)j]) same = 0; \
   VF_ASSERT(same, "C04: copy stores exactly the characters [pos, pos + rlen) and no terminator (the destination has exactly rlen bytes)"); \
   VF_ASSERT(WF(s) && view_eq(view_of(&s), o), "copy leaves *this unchanged"); VF_REACH(); }
-/*@GROUP name=copy props=C04,C02,C05 kind=K unwind=12 when=VF_N<=7@*/
+/*@GROUP name=copy props=C04,C02,C05 kind=K unwind=11 when=VF_N<=7@*/
 H_COPY(h_copy, ((void)0))
-/*@GROUP name=copy_u21 props=C04,C02,C05 kind=K unwind=21 when=7<VF_N<=16@*/
-H_COPY(h_copy_u21, ((void)0))
-/*@GROUP name=copy_u36 props=C04,C02,C05 kind=K unwind=36 when=VF_N>16 tier=thorough timeout=3000@*/
-H_COPY(h_copy_u36, ((void)0))
+/*@GROUP name=copy_m props=C04,C02,C05 kind=K unwind=20 when=7<VF_N<=16@*/
+H_COPY(h_copy_m, ((void)0))
+/*@GROUP name=copy_w props=C04,C02,C05 kind=K unwind=35 when=VF_N>16 tier=thorough timeout=3000@*/
+H_COPY(h_copy_w, ((void)0))
 
 /*@COMMON@*/
 /* ---- compare / relational operators: sign of the result against [string.compare] with [char.traits.specializations.char] (unsigned char order) */
@@ -597,12 +598,12 @@ H_COPY(h_copy_u36, ((void)0))
   VF_ASSERT(s_eq(&a, &b) == (c == 0) && s_ne(&a, &b) == (c != 0), "C04: operator== / != (string, string)"); \
   VF_ASSERT(s_lt(&a, &b) == (c < 0) && s_le(&a, &b) == (c <= 0) && s_gt(&a, &b) == (c > 0) && s_ge(&a, &b) == (c >= 0), "C04: operator< <= > >= (string, string)"); \
   UNCHANGED(a, oa); UNCHANGED(b, ob); VF_REACH(); }
-/*@GROUP name=compare_str props=C04,C02 kind=K unwind=12 when=VF_N<=7@*/
+/*@GROUP name=compare_str props=C04,C02 kind=K unwind=11 when=VF_N<=7@*/
 H_COMPARE_STR(h_compare_str, VF_KNOWN(C04_compare_signed_char, sp_signflip(x, y)))
-/*@GROUP name=compare_str_u21 props=C04,C02 kind=K unwind=21 when=7<VF_N<=16@*/
-H_COMPARE_STR(h_compare_str_u21, VF_KNOWN(C04_compare_signed_char, sp_signflip(x, y)))
-/*@GROUP name=compare_str_u36 props=C04,C02 kind=K unwind=36 when=VF_N>16 tier=thorough timeout=3000@*/
-H_COMPARE_STR(h_compare_str_u36, VF_KNOWN(C04_compare_signed_char, sp_signflip(x, y)))
+/*@GROUP name=compare_str_m props=C04,C02 kind=K unwind=20 when=7<VF_N<=16@*/
+H_COMPARE_STR(h_compare_str_m, VF_KNOWN(C04_compare_signed_char, sp_signflip(x, y)))
+/*@GROUP name=compare_str_w props=C04,C02 kind=K unwind=35 when=VF_N>16 tier=thorough timeout=3000@*/
+H_COMPARE_STR(h_compare_str_w, VF_KNOWN(C04_compare_signed_char, sp_signflip(x, y)))
 
 /*@COMMON@*/
 #define H_COMPARE_SUB_STR(NAME, KNOWN) void NAME(void) { ARB(a); ARB(b); VF_INPUT(unsigned char, pos); VF_INPUT(unsigned long, cnt); VF_INPUT(unsigned char, pos2); VF_INPUT(unsigned long, cnt2); VF_INPUT(unsigned char, which); view_t oa = view_of(&a), ob = view_of(&b); \
@@ -610,144 +611,514 @@ H_COMPARE_STR(h_compare_str_u36, VF_KNOWN(C04_compare_signed_char, sp_signflip(x
   __CPROVER_assume(pos <= oa.n && pos2 <= ob.n); seq_t x = seq_sub(oa.a, oa.n, pos, cnt), y = seq_sub(ob.a, ob.n, pos2, cnt2); int c = sp_cmpq(x, y); \
   KNOWN; int r = which == 0 ? s_compare_pn_str(&a, pos, cnt, &b) : which == 1 ? s_compare_pn_str_pn(&a, pos, cnt, &b, pos2, cnt2) : s_compare_pn_str_p(&a, pos, cnt, &b, pos2); \
   VF_ASSERT(sgn(r) == c, "C04: compare(pos1, n1, str[, pos2[, n2]]): substr(pos1, n1) against str.substr(pos2, n2)"); UNCHANGED(a, oa); UNCHANGED(b, ob); VF_REACH(); }
-/*@GROUP name=compare_sub_str props=C04,C02,C05 kind=K unwind=12 when=VF_N<=7@*/
+/*@GROUP name=compare_sub_str props=C04,C02,C05 kind=K unwind=11 when=VF_N<=7@*/
 H_COMPARE_SUB_STR(h_compare_sub_str, VF_KNOWN(C04_compare_signed_char, sp_signflip(x, y)); VF_KNOWN(C04_compare_count2_size, which >= 1 && cnt2 > ob.n - pos2 && oa.n < ob.n - pos2))
-/*@GROUP name=compare_sub_str_u21 props=C04,C02,C05 kind=K unwind=21 when=7<VF_N<=16@*/
-H_COMPARE_SUB_STR(h_compare_sub_str_u21, VF_KNOWN(C04_compare_signed_char, sp_signflip(x, y)); VF_KNOWN(C04_compare_count2_size, which >= 1 && cnt2 > ob.n - pos2 && oa.n < ob.n - pos2))
-/*@GROUP name=compare_sub_str_u36 props=C04,C02,C05 kind=K unwind=36 when=VF_N>16 tier=thorough timeout=3000@*/
-H_COMPARE_SUB_STR(h_compare_sub_str_u36, VF_KNOWN(C04_compare_signed_char, sp_signflip(x, y)); VF_KNOWN(C04_compare_count2_size, which >= 1 && cnt2 > ob.n - pos2 && oa.n < ob.n - pos2))
+/*@GROUP name=compare_sub_str_m props=C04,C02,C05 kind=K unwind=20 when=7<VF_N<=16@*/
+H_COMPARE_SUB_STR(h_compare_sub_str_m, VF_KNOWN(C04_compare_signed_char, sp_signflip(x, y)); VF_KNOWN(C04_compare_count2_size, which >= 1 && cnt2 > ob.n - pos2 && oa.n < ob.n - pos2))
+/*@GROUP name=compare_sub_str_w props=C04,C02,C05 kind=K unwind=35 when=VF_N>16 tier=thorough timeout=3000@*/
+H_COMPARE_SUB_STR(h_compare_sub_str_w, VF_KNOWN(C04_compare_signed_char, sp_signflip(x, y)); VF_KNOWN(C04_compare_count2_size, which >= 1 && cnt2 > ob.n - pos2 && oa.n < ob.n - pos2))
 
 /*@COMMON@*/
 #define H_COMPARE_CSTR(NAME, KNOWN) void NAME(void) { ARB(a); VF_INPUT(unsigned char, c); VF_INPUT(unsigned char, pos); VF_INPUT(unsigned long, cnt); VF_INPUT_BOOL(sub); view_t oa = view_of(&a); __CPROVER_assume(c <= N + 1); CSTR(src, c, N + 1); \
-  if (!sub) { pos = 0; cnt = NPOS; } __CPROVER_assume(pos <= oa.n); seq_t x = seq_sub(oa.a, oa.n, pos, cnt), y = seq_sub(src_in, c, 0, NPOS); int k = sp_cmpq(x, y); \
+  if (!sub) { pos = 0; cnt = NPOS; } __CPROVER_assume(pos <= oa.n); seq_t x = seq_sub(oa.a, oa.n, pos, cnt), y = seq_sub(src, c, 0, NPOS); int k = sp_cmpq(x, y); \
   KNOWN; if (sub) VF_ASSERT(sgn(s_compare_pn_cstr(&a, pos, cnt, src)) == k, "C04: compare(pos1, n1, char const*)"); \
   else { VF_ASSERT(sgn(s_compare_cstr(&a, src)) == k, "C04: compare(char const*)"); \
     VF_ASSERT(s_eq_c(&a, src) == (k == 0) && s_ne_c(&a, src) == (k != 0) && s_lt_c(&a, src) == (k < 0) && s_le_c(&a, src) == (k <= 0) && s_gt_c(&a, src) == (k > 0) && s_ge_c(&a, src) == (k >= 0), "C04: operator== != < <= > >= (string, char const*)"); \
     VF_ASSERT(s_c_eq(src, &a) == (k == 0) && s_c_ne(src, &a) == (k != 0) && s_c_lt(src, &a) == (k > 0) && s_c_le(src, &a) == (k >= 0) && s_c_gt(src, &a) == (k < 0) && s_c_ge(src, &a) == (k <= 0), "C04: operator== != < <= > >= (char const*, string)"); } \
   UNCHANGED(a, oa); VF_REACH(); }
-/*@GROUP name=compare_cstr props=C04,C02,C05 kind=K unwind=12 when=VF_N<=7@*/
+/*@GROUP name=compare_cstr props=C04,C02,C05 kind=K unwind=11 when=VF_N<=7@*/
 H_COMPARE_CSTR(h_compare_cstr, VF_KNOWN(C04_compare_signed_char, sp_signflip(x, y)))
-/*@GROUP name=compare_cstr_u21 props=C04,C02,C05 kind=K unwind=21 when=7<VF_N<=16@*/
-H_COMPARE_CSTR(h_compare_cstr_u21, VF_KNOWN(C04_compare_signed_char, sp_signflip(x, y)))
-/*@GROUP name=compare_cstr_u36 props=C04,C02,C05 kind=K unwind=36 when=VF_N>16 tier=thorough timeout=3000@*/
-H_COMPARE_CSTR(h_compare_cstr_u36, VF_KNOWN(C04_compare_signed_char, sp_signflip(x, y)))
+/*@GROUP name=compare_cstr_m props=C04,C02,C05 kind=K unwind=20 when=7<VF_N<=16@*/
+H_COMPARE_CSTR(h_compare_cstr_m, VF_KNOWN(C04_compare_signed_char, sp_signflip(x, y)))
+/*@GROUP name=compare_cstr_w props=C04,C02,C05 kind=K unwind=35 when=VF_N>16 tier=thorough timeout=3000@*/
+H_COMPARE_CSTR(h_compare_cstr_w, VF_KNOWN(C04_compare_signed_char, sp_signflip(x, y)))
 
 /*@COMMON@*/
-#define H_COMPARE_BUF(NAME, KNOWN) void NAME(void) { ARB(a); VF_INPUT(unsigned char, m); VF_INPUT(unsigned char, pos); VF_INPUT(unsigned long, cnt); VF_INPUT(unsigned char, pos2); VF_INPUT(unsigned long, cnt2); VF_INPUT(unsigned char, which); view_t oa = view_of(&a); \
-  __CPROVER_assume(m <= N + 1); XBUF(char, src, m, N + 1); \
-  if (which == 1) { pos = 0; cnt = NPOS; } if (which <= 2) { pos2 = 0; cnt2 = NPOS; } else if (which >= 4) cnt2 = NPOS; \
-  __CPROVER_assume(pos <= oa.n && pos2 <= m); seq_t x = seq_sub(oa.a, oa.n, pos, cnt), y = seq_sub(src_in, m, pos2, cnt2); int k = sp_cmpq(x, y); \
-  KNOWN; int r = which == 0 ? s_compare_pn_ptr_n(&a, pos, cnt, src, m) : which == 1 ? s_compare_sv(&a, src, m) : which == 2 ? s_compare_pn_sv(&a, pos, cnt, src, m) : which == 3 ? s_compare_pn_sv_pn(&a, pos, cnt, src, m, pos2, cnt2) : s_compare_pn_sv_p(&a, pos, cnt, src, m, pos2); \
-  VF_ASSERT(sgn(r) == k, "C04: compare(pos1, n1, s, n2) / compare(sv) / compare(pos1, n1, sv[, pos2[, n2]])"); UNCHANGED(a, oa); VF_REACH(); }
-/*@GROUP name=compare_buf props=C04,C02,C05 kind=K unwind=12 when=VF_N<=7@*/
+#define H_COMPARE_BUF(NAME, KNOWN) void NAME(void) { ARB(a); VF_INPUT(unsigned char, m); VF_INPUT(unsigned char, pos); VF_INPUT(unsigned long, cnt); VF_INPUT(unsigned char, which); view_t oa = view_of(&a); \
+  __CPROVER_assume(which <= 2 && m <= N + 1); XBUF(char, src, m, N + 1); if (which == 1) { pos = 0; cnt = NPOS; } \
+  __CPROVER_assume(pos <= oa.n); seq_t x = seq_sub(oa.a, oa.n, pos, cnt), y = seq_sub(src, m, 0, NPOS); int k = sp_cmpq(x, y); \
+  KNOWN; int r = which == 0 ? s_compare_pn_ptr_n(&a, pos, cnt, src, m) : which == 1 ? s_compare_sv(&a, src, m) : s_compare_pn_sv(&a, pos, cnt, src, m); \
+  VF_ASSERT(sgn(r) == k, "C04: compare(pos1, n1, s, n2) / compare(sv) / compare(pos1, n1, sv)"); UNCHANGED(a, oa); VF_REACH(); }
+/*@GROUP name=compare_buf props=C04,C02,C05 kind=K unwind=11 when=VF_N<=7@*/
 H_COMPARE_BUF(h_compare_buf, VF_KNOWN(C04_compare_signed_char, sp_signflip(x, y)))
-/*@GROUP name=compare_buf_u21 props=C04,C02,C05 kind=K unwind=21 when=7<VF_N<=16@*/
-H_COMPARE_BUF(h_compare_buf_u21, VF_KNOWN(C04_compare_signed_char, sp_signflip(x, y)))
-/*@GROUP name=compare_buf_u36 props=C04,C02,C05 kind=K unwind=36 when=VF_N>16 tier=thorough timeout=3000@*/
-H_COMPARE_BUF(h_compare_buf_u36, VF_KNOWN(C04_compare_signed_char, sp_signflip(x, y)))
+/*@GROUP name=compare_buf_m props=C04,C02,C05 kind=K unwind=20 when=7<VF_N<=16@*/
+H_COMPARE_BUF(h_compare_buf_m, VF_KNOWN(C04_compare_signed_char, sp_signflip(x, y)))
+/*@GROUP name=compare_buf_w props=C04,C02,C05 kind=K unwind=35 when=VF_N>16 tier=thorough timeout=3000@*/
+H_COMPARE_BUF(h_compare_buf_w, VF_KNOWN(C04_compare_signed_char, sp_signflip(x, y)))
+
+/*@COMMON@*/
+#define H_COMPARE_SV_SUB(NAME, KNOWN) void NAME(void) { ARB(a); VF_INPUT(unsigned char, m); VF_INPUT(unsigned char, pos); VF_INPUT(unsigned long, cnt); VF_INPUT(unsigned char, pos2); VF_INPUT(unsigned long, cnt2); VF_INPUT_BOOL(dflt); view_t oa = view_of(&a); \
+  __CPROVER_assume(m <= N + 1); XBUF(char, src, m, N + 1); if (dflt) cnt2 = NPOS; \
+  __CPROVER_assume(pos <= oa.n && pos2 <= m); seq_t x = seq_sub(oa.a, oa.n, pos, cnt), y = seq_sub(src, m, pos2, cnt2); int k = sp_cmpq(x, y); \
+  KNOWN; int r = dflt ? s_compare_pn_sv_p(&a, pos, cnt, src, m, pos2) : s_compare_pn_sv_pn(&a, pos, cnt, src, m, pos2, cnt2); \
+  VF_ASSERT(sgn(r) == k, "C04: compare(pos1, n1, sv, pos2[, n2]): substr(pos1, n1) against sv.substr(pos2, n2)"); UNCHANGED(a, oa); VF_REACH(); }
+/*@GROUP name=compare_sv_sub props=C04,C02,C05 kind=K unwind=11 when=VF_N<=7@*/
+H_COMPARE_SV_SUB(h_compare_sv_sub, VF_KNOWN(C04_compare_signed_char, sp_signflip(x, y)))
+/*@GROUP name=compare_sv_sub_m props=C04,C02,C05 kind=K unwind=20 when=7<VF_N<=16@*/
+H_COMPARE_SV_SUB(h_compare_sv_sub_m, VF_KNOWN(C04_compare_signed_char, sp_signflip(x, y)))
+/*@GROUP name=compare_sv_sub_w props=C04,C02,C05 kind=K unwind=35 when=VF_N>16 tier=thorough timeout=3000@*/
+H_COMPARE_SV_SUB(h_compare_sv_sub_w, VF_KNOWN(C04_compare_signed_char, sp_signflip(x, y)))
 
 /*@COMMON@*/
 /* ---- starts_with / ends_with / contains ([string.starts.with], [string.ends.with], [string.contains]) */
-#define NEEDLE(nd, isstr, isch) seq_t nd; nd.n = (isstr) ? b.n : (isch) ? 1 : c; for (int vf_q = 0; vf_q < N + 2; ++vf_q) nd.a[vf_q] = (unsigned long)vf_q >= nd.n ? 0 : (isstr) ? b.a[vf_q <= N ? vf_q : N] : (isch) ? ch : src_in[vf_q]
+#define NEEDLE(nd, isstr, isch) seq_t nd; nd.n = (isstr) ? b.n : (isch) ? 1 : c; for (int vf_q = 0; vf_q < N + 2; ++vf_q) nd.a[vf_q] = (unsigned long)vf_q >= nd.n ? 0 : (isstr) ? b.a[vf_q <= N ? vf_q : N] : (isch) ? ch : src[vf_q]
 
 /*@COMMON@*/
 #define H_STARTS_ENDS(NAME, KNOWN) void NAME(void) { ARB(s); VF_INPUT(unsigned char, c); VF_INPUT(char, ch); VF_INPUT(unsigned char, which); view_t h = view_of(&s), b = sp_empty(); _Bool cs = which == 2; \
-  __CPROVER_assume(which <= 2 && c <= N + 1 - cs); XBUF(char, src, (unsigned long)c + cs, N + 1); if (cs) CSTR_ASSUME(src_in, c, N + 1); NEEDLE(nd, 0, which == 1); \
+  __CPROVER_assume(which <= 2 && c <= N + 1 - cs); XBUF(char, src, (unsigned long)c + cs, N + 1); if (cs) CSTR_ASSUME(src, c, N + 1); NEEDLE(nd, 0, which == 1); \
   _Bool st = nd.n <= h.n && sp_match_at(h, 0, nd.a, nd.n), en = nd.n <= h.n && sp_match_at(h, h.n - nd.n, nd.a, nd.n); \
   KNOWN; _Bool rs = which == 0 ? s_starts_sv(&s, src, c) : which == 1 ? s_starts_ch(&s, ch) : s_starts_cstr(&s, src); \
   _Bool re = which == 0 ? s_ends_sv(&s, src, c) : which == 1 ? s_ends_ch(&s, ch) : s_ends_cstr(&s, src); \
   VF_ASSERT(rs == st, "C04: starts_with(sv | ch | char const*)"); VF_ASSERT(re == en, "C04: ends_with(sv | ch | char const*)"); UNCHANGED(s, h); VF_REACH(); }
-/*@GROUP name=starts_ends props=C04,C02 kind=K unwind=12 when=VF_N<=7@*/
+/*@GROUP name=starts_ends props=C04,C02 kind=K unwind=11 when=VF_N<=7@*/
 H_STARTS_ENDS(h_starts_ends, ((void)0))
-/*@GROUP name=starts_ends_u21 props=C04,C02 kind=K unwind=21 when=7<VF_N<=16@*/
-H_STARTS_ENDS(h_starts_ends_u21, ((void)0))
-/*@GROUP name=starts_ends_u36 props=C04,C02 kind=K unwind=36 when=VF_N>16 tier=thorough timeout=3000@*/
-H_STARTS_ENDS(h_starts_ends_u36, ((void)0))
+/*@GROUP name=starts_ends_m props=C04,C02 kind=K unwind=20 when=7<VF_N<=16@*/
+H_STARTS_ENDS(h_starts_ends_m, ((void)0))
+/*@GROUP name=starts_ends_w props=C04,C02 kind=K unwind=35 when=VF_N>16 tier=thorough timeout=3000@*/
+H_STARTS_ENDS(h_starts_ends_w, ((void)0))
 
 /*@COMMON@*/
 #define H_CONTAINS(NAME, KNOWN) void NAME(void) { ARB(s); VF_INPUT(unsigned char, c); VF_INPUT(char, ch); VF_INPUT(unsigned char, which); view_t h = view_of(&s), b = sp_empty(); _Bool cs = which == 2; \
-  __CPROVER_assume(which <= 2 && c <= N + 1 - cs); XBUF(char, src, (unsigned long)c + cs, N + 1); if (cs) CSTR_ASSUME(src_in, c, N + 1); NEEDLE(nd, 0, which == 1); \
+  __CPROVER_assume(which <= 2 && c <= N + 1 - cs); XBUF(char, src, (unsigned long)c + cs, N + 1); if (cs) CSTR_ASSUME(src, c, N + 1); NEEDLE(nd, 0, which == 1); \
   KNOWN; _Bool r = which == 0 ? s_contains_sv(&s, src, c) : which == 1 ? s_contains_ch(&s, ch) : s_contains_cstr(&s, src); \
   VF_ASSERT(r == (sp_find(h, nd.a, nd.n, 0) != NPOS), "C04: contains(sv | ch | char const*) == (find(x) != npos)"); UNCHANGED(s, h); VF_REACH(); }
-/*@GROUP name=contains props=C04,C02 kind=K unwind=12 when=VF_N<=7@*/
+/*@GROUP name=contains props=C04,C02 kind=K unwind=11 when=VF_N<=7@*/
 H_CONTAINS(h_contains, VF_KNOWN(C04_find_empty_needle, nd.n == 0); VF_KNOWN(C04_find_overrun, sp_has_inner_nul(nd)))
-/*@GROUP name=contains_u21 props=C04,C02 kind=K unwind=21 when=7<VF_N<=16@*/
-H_CONTAINS(h_contains_u21, VF_KNOWN(C04_find_empty_needle, nd.n == 0); VF_KNOWN(C04_find_overrun, sp_has_inner_nul(nd)))
-/*@GROUP name=contains_u36 props=C04,C02 kind=K unwind=36 when=VF_N>16 tier=thorough timeout=3000@*/
-H_CONTAINS(h_contains_u36, VF_KNOWN(C04_find_empty_needle, nd.n == 0); VF_KNOWN(C04_find_overrun, sp_has_inner_nul(nd)))
+/*@GROUP name=contains_m props=C04,C02 kind=K unwind=20 when=7<VF_N<=16 tier=thorough@*/
+H_CONTAINS(h_contains_m, VF_KNOWN(C04_find_empty_needle, nd.n == 0); VF_KNOWN(C04_find_overrun, sp_has_inner_nul(nd)))
+/*@GROUP name=contains_w props=C04,C02 kind=K unwind=35 when=VF_N>16 tier=thorough timeout=3000@*/
+H_CONTAINS(h_contains_w, VF_KNOWN(C04_find_empty_needle, nd.n == 0); VF_KNOWN(C04_find_overrun, sp_has_inner_nul(nd)))
 
 /*@COMMON@*/
 /* ---- searches ([string.find] ... [string.find.last.not.of]): every overload, pos over the whole size_type range (0, size, size + 1, npos included),
  * needles of 0 .. N+1 characters (longer than the haystack included), exact-size buffers */
 
 /*@COMMON@*/
-#define H_FIND(NAME, KNOWN) void NAME(void) { ARB(s); ARB(t); VF_INPUT(unsigned long, pos); VF_INPUT(unsigned char, c); VF_INPUT(char, ch); VF_INPUT(unsigned char, which); view_t h = view_of(&s), b = view_of(&t); _Bool cs = which == 2; \
-  __CPROVER_assume(which <= 3 && c <= N + 1 - cs); XBUF(char, src, (unsigned long)c + cs, N + 1); if (cs) CSTR_ASSUME(src_in, c, N + 1); NEEDLE(nd, which == 0, which == 3); \
-  KNOWN; unsigned long r = which == 0 ? s_find_str(&s, &t, pos) : which == 1 ? s_find_ptr_n(&s, src, pos, c) : which == 2 ? s_find_cstr(&s, src, pos) : s_find_ch(&s, ch, pos); \
-  VF_ASSERT(r == sp_find(h, nd.a, nd.n, pos), "C04: find(str | s, pos, n | char const* | ch, pos): the lowest xpos >= pos with xpos + n <= size() and equal characters, else npos"); UNCHANGED(s, h); VF_REACH(); }
-/*@GROUP name=find props=C04,C02 kind=K unwind=12 when=VF_N<=7@*/
-H_FIND(h_find, VF_KNOWN(C04_find_overrun, sp_has_inner_nul(nd)))
-/*@GROUP name=find_u21 props=C04,C02 kind=K unwind=21 when=7<VF_N<=16@*/
-H_FIND(h_find_u21, VF_KNOWN(C04_find_overrun, sp_has_inner_nul(nd)))
-/*@GROUP name=find_u36 props=C04,C02 kind=K unwind=36 when=VF_N>16 tier=thorough timeout=3000@*/
-H_FIND(h_find_u36, VF_KNOWN(C04_find_overrun, sp_has_inner_nul(nd)))
+#define H_FIND_STR(NAME, KNOWN) void NAME(void) { ARB(s); ARB(t); VF_INPUT(unsigned long, pos); view_t h = view_of(&s), b = view_of(&t); seq_t nd = seq_sub(b.a, b.n, 0, NPOS); \
+  KNOWN; unsigned long r = s_find_str(&s, &t, pos); \
+  VF_ASSERT(r == sp_find(h, nd.a, nd.n, pos), "C04: find(str, pos): the lowest xpos >= pos with xpos + n <= size() and equal characters, else npos"); UNCHANGED(s, h); VF_REACH(); }
+/*@GROUP name=find_str props=C04,C02 kind=K unwind=11 when=VF_N<=7 objbits=12@*/
+H_FIND_STR(h_find_str, VF_KNOWN(C04_find_overrun, sp_has_inner_nul(nd)))
+/*@GROUP name=find_str_m props=C04,C02 kind=K unwind=20 when=7<VF_N<=16 objbits=12 tier=thorough@*/
+H_FIND_STR(h_find_str_m, VF_KNOWN(C04_find_overrun, sp_has_inner_nul(nd)))
+/*@GROUP name=find_str_w props=C04,C02 kind=K unwind=35 when=VF_N>16 objbits=12 tier=thorough timeout=3000@*/
+H_FIND_STR(h_find_str_w, VF_KNOWN(C04_find_overrun, sp_has_inner_nul(nd)))
 
 /*@COMMON@*/
-#define H_RFIND(NAME, KNOWN) void NAME(void) { ARB(s); ARB(t); VF_INPUT(unsigned long, pos); VF_INPUT(unsigned char, c); VF_INPUT(char, ch); VF_INPUT(unsigned char, which); view_t h = view_of(&s), b = view_of(&t); _Bool cs = which == 2; \
-  __CPROVER_assume(which <= 3 && c <= N + 1 - cs); XBUF(char, src, (unsigned long)c + cs, N + 1); if (cs) CSTR_ASSUME(src_in, c, N + 1); NEEDLE(nd, which == 0, which == 3); \
-  KNOWN; unsigned long r = which == 0 ? s_rfind_str(&s, &t, pos) : which == 1 ? (__CPROVER_assume(0), 0UL) : which == 2 ? s_rfind_cstr(&s, src, pos) : s_rfind_ch(&s, ch, pos); \
-  VF_ASSERT(r == sp_rfind(h, nd.a, nd.n, pos), "C04: rfind(str | char const* | ch, pos): the highest xpos <= pos with xpos + n <= size() and equal characters, else npos"); UNCHANGED(s, h); VF_REACH(); }
-/*@GROUP name=rfind props=C04,C02 kind=K unwind=12 when=VF_N<=7@*/
-H_RFIND(h_rfind, ((void)0))
-/*@GROUP name=rfind_u21 props=C04,C02 kind=K unwind=21 when=7<VF_N<=16@*/
-H_RFIND(h_rfind_u21, ((void)0))
-/*@GROUP name=rfind_u36 props=C04,C02 kind=K unwind=36 when=VF_N>16 tier=thorough timeout=3000@*/
-H_RFIND(h_rfind_u36, ((void)0))
+#define H_FIND_BUF(NAME, KNOWN) void NAME(void) { ARB(s); VF_INPUT(unsigned long, pos); VF_INPUT(unsigned char, c); view_t h = view_of(&s); __CPROVER_assume(c <= N + 1); XBUF(char, src, c, N + 1); seq_t nd = seq_sub(src, c, 0, NPOS); \
+  KNOWN; unsigned long r = s_find_ptr_n(&s, src, pos, c); \
+  VF_ASSERT(r == sp_find(h, nd.a, nd.n, pos), "C04: find(s, pos, n): the lowest xpos >= pos with xpos + n <= size() and equal characters, else npos"); UNCHANGED(s, h); VF_REACH(); }
+/*@GROUP name=find_buf props=C04,C02 kind=K unwind=11 when=VF_N<=7 objbits=12@*/
+H_FIND_BUF(h_find_buf, VF_KNOWN(C04_find_overrun, sp_has_inner_nul(nd)))
+/*@GROUP name=find_buf_m props=C04,C02 kind=K unwind=20 when=7<VF_N<=16 objbits=12 tier=thorough@*/
+H_FIND_BUF(h_find_buf_m, VF_KNOWN(C04_find_overrun, sp_has_inner_nul(nd)))
+/*@GROUP name=find_buf_w props=C04,C02 kind=K unwind=35 when=VF_N>16 objbits=12 tier=thorough timeout=3000@*/
+H_FIND_BUF(h_find_buf_w, VF_KNOWN(C04_find_overrun, sp_has_inner_nul(nd)))
 
 /*@COMMON@*/
-#define H_FIND_FIRST_OF(NAME, KNOWN) void NAME(void) { ARB(s); ARB(t); VF_INPUT(unsigned long, pos); VF_INPUT(unsigned char, c); VF_INPUT(char, ch); VF_INPUT(unsigned char, which); view_t h = view_of(&s), b = view_of(&t); _Bool cs = which == 2; \
-  __CPROVER_assume(which <= 4 && c <= N + 1 - cs); XBUF(char, src, (unsigned long)c + cs, N + 1); if (cs) CSTR_ASSUME(src_in, c, N + 1); NEEDLE(nd, which == 0, which == 3); \
-  KNOWN; unsigned long r = which == 0 ? s_ffo_str(&s, &t, pos) : which == 1 ? s_ffo_ptr_n(&s, src, pos, c) : which == 2 ? s_ffo_cstr(&s, src, pos) : which == 3 ? s_ffo_ch(&s, ch, pos) : s_ffo_sv(&s, src, c, pos); \
-  VF_ASSERT(r == sp_ffo(h, nd.a, nd.n, pos, 0), "C04: find_first_of(str | s, pos, n | char const* | ch | sv, pos): the lowest xpos >= pos whose character is in the set, else npos"); UNCHANGED(s, h); VF_REACH(); }
-/*@GROUP name=find_first_of props=C04,C02 kind=K unwind=12 when=VF_N<=7@*/
-H_FIND_FIRST_OF(h_find_first_of, ((void)0))
-/*@GROUP name=find_first_of_u21 props=C04,C02 kind=K unwind=21 when=7<VF_N<=16@*/
-H_FIND_FIRST_OF(h_find_first_of_u21, ((void)0))
-/*@GROUP name=find_first_of_u36 props=C04,C02 kind=K unwind=36 when=VF_N>16 tier=thorough timeout=3000@*/
-H_FIND_FIRST_OF(h_find_first_of_u36, ((void)0))
+#define H_FIND_CSTR(NAME, KNOWN) void NAME(void) { ARB(s); VF_INPUT(unsigned long, pos); VF_INPUT(unsigned char, c); view_t h = view_of(&s); __CPROVER_assume(c <= N + 1); CSTR(src, c, N + 1); seq_t nd = seq_sub(src, c, 0, NPOS); \
+  KNOWN; unsigned long r = s_find_cstr(&s, src, pos); \
+  VF_ASSERT(r == sp_find(h, nd.a, nd.n, pos), "C04: find(char const*, pos): the lowest xpos >= pos with xpos + n <= size() and equal characters, else npos"); UNCHANGED(s, h); VF_REACH(); }
+/*@GROUP name=find_cstr props=C04,C02 kind=K unwind=11 when=VF_N<=7 objbits=12@*/
+H_FIND_CSTR(h_find_cstr, ((void)0))
+/*@GROUP name=find_cstr_m props=C04,C02 kind=K unwind=20 when=7<VF_N<=16 objbits=12 tier=thorough@*/
+H_FIND_CSTR(h_find_cstr_m, ((void)0))
+/*@GROUP name=find_cstr_w props=C04,C02 kind=K unwind=35 when=VF_N>16 objbits=12 tier=thorough timeout=3000@*/
+H_FIND_CSTR(h_find_cstr_w, ((void)0))
 
 /*@COMMON@*/
-#define H_FIND_FIRST_NOT_OF(NAME, KNOWN) void NAME(void) { ARB(s); ARB(t); VF_INPUT(unsigned long, pos); VF_INPUT(unsigned char, c); VF_INPUT(char, ch); VF_INPUT(unsigned char, which); view_t h = view_of(&s), b = view_of(&t); _Bool cs = which == 2; \
-  __CPROVER_assume(which <= 3 && c <= N + 1 - cs); XBUF(char, src, (unsigned long)c + cs, N + 1); if (cs) CSTR_ASSUME(src_in, c, N + 1); NEEDLE(nd, which == 0, which == 3); \
-  KNOWN; unsigned long r = which == 0 ? s_ffno_str(&s, &t, pos) : which == 1 ? s_ffno_ptr_n(&s, src, pos, c) : which == 2 ? s_ffno_cstr(&s, src, pos) : s_ffno_ch(&s, ch, pos); \
-  VF_ASSERT(r == sp_ffo(h, nd.a, nd.n, pos, 1), "C04: find_first_not_of(str | s, pos, n | char const* | ch, pos): the lowest xpos >= pos whose character is not in the set, else npos"); UNCHANGED(s, h); VF_REACH(); }
-/*@GROUP name=find_first_not_of props=C04,C02 kind=K unwind=12 when=VF_N<=7@*/
-H_FIND_FIRST_NOT_OF(h_find_first_not_of, ((void)0))
-/*@GROUP name=find_first_not_of_u21 props=C04,C02 kind=K unwind=21 when=7<VF_N<=16@*/
-H_FIND_FIRST_NOT_OF(h_find_first_not_of_u21, ((void)0))
-/*@GROUP name=find_first_not_of_u36 props=C04,C02 kind=K unwind=36 when=VF_N>16 tier=thorough timeout=3000@*/
-H_FIND_FIRST_NOT_OF(h_find_first_not_of_u36, ((void)0))
+#define H_FIND_CH(NAME, KNOWN) void NAME(void) { ARB(s); VF_INPUT(unsigned long, pos); VF_INPUT(char, ch); view_t h = view_of(&s); seq_t nd = seq_sub(&ch, 1, 0, NPOS); \
+  KNOWN; unsigned long r = s_find_ch(&s, ch, pos); \
+  VF_ASSERT(r == sp_find(h, nd.a, nd.n, pos), "C04: find(ch, pos): the lowest xpos >= pos with xpos + n <= size() and equal characters, else npos"); UNCHANGED(s, h); VF_REACH(); }
+/*@GROUP name=find_ch props=C04,C02 kind=K unwind=11 when=VF_N<=7@*/
+H_FIND_CH(h_find_ch, ((void)0))
+/*@GROUP name=find_ch_m props=C04,C02 kind=K unwind=20 when=7<VF_N<=16@*/
+H_FIND_CH(h_find_ch_m, ((void)0))
+/*@GROUP name=find_ch_w props=C04,C02 kind=K unwind=35 when=VF_N>16 tier=thorough timeout=3000@*/
+H_FIND_CH(h_find_ch_w, ((void)0))
 
 /*@COMMON@*/
-#define H_FIND_LAST_OF(NAME, KNOWN) void NAME(void) { ARB(s); ARB(t); VF_INPUT(unsigned long, pos); VF_INPUT(unsigned char, c); VF_INPUT(char, ch); VF_INPUT(unsigned char, which); view_t h = view_of(&s), b = view_of(&t); _Bool cs = which == 2; \
-  __CPROVER_assume(which <= 3 && c <= N + 1 - cs); XBUF(char, src, (unsigned long)c + cs, N + 1); if (cs) CSTR_ASSUME(src_in, c, N + 1); NEEDLE(nd, which == 0, which == 3); \
-  KNOWN; unsigned long r = which == 0 ? s_flo_str(&s, &t, pos) : which == 1 ? s_flo_ptr_n(&s, src, pos, c) : which == 2 ? s_flo_cstr(&s, src, pos) : s_flo_ch(&s, ch, pos); \
-  VF_ASSERT(r == sp_flo(h, nd.a, nd.n, pos, 0), "C04: find_last_of(str | s, pos, n | char const* | ch, pos): the highest xpos <= pos, xpos < size(), whose character is in the set, else npos"); UNCHANGED(s, h); VF_REACH(); }
-/*@GROUP name=find_last_of props=C04,C02 kind=K unwind=12 when=VF_N<=7@*/
-H_FIND_LAST_OF(h_find_last_of, VF_KNOWN(C04_find_last_empty, h.n == 0))
-/*@GROUP name=find_last_of_u21 props=C04,C02 kind=K unwind=21 when=7<VF_N<=16@*/
-H_FIND_LAST_OF(h_find_last_of_u21, VF_KNOWN(C04_find_last_empty, h.n == 0))
-/*@GROUP name=find_last_of_u36 props=C04,C02 kind=K unwind=36 when=VF_N>16 tier=thorough timeout=3000@*/
-H_FIND_LAST_OF(h_find_last_of_u36, VF_KNOWN(C04_find_last_empty, h.n == 0))
+#define H_RFIND_STR(NAME, KNOWN) void NAME(void) { ARB(s); ARB(t); VF_INPUT(unsigned long, pos); view_t h = view_of(&s), b = view_of(&t); seq_t nd = seq_sub(b.a, b.n, 0, NPOS); \
+  KNOWN; unsigned long r = s_rfind_str(&s, &t, pos); \
+  VF_ASSERT(r == sp_rfind(h, nd.a, nd.n, pos), "C04: rfind(str, pos): the highest xpos <= pos with xpos + n <= size() and equal characters, else npos"); UNCHANGED(s, h); VF_REACH(); }
+/*@GROUP name=rfind_str props=C04,C02 kind=K unwind=10 when=VF_N<=7 cost=3 objbits=12@*/
+H_RFIND_STR(h_rfind_str, ((void)0))
+/*@GROUP name=rfind_str_m props=C04,C02 kind=K unwind=19 when=7<VF_N<=16 cost=3 objbits=12 tier=thorough@*/
+H_RFIND_STR(h_rfind_str_m, ((void)0))
+/*@GROUP name=rfind_str_w props=C04,C02 kind=K unwind=34 when=VF_N>16 cost=3 objbits=12 tier=thorough timeout=3000@*/
+H_RFIND_STR(h_rfind_str_w, ((void)0))
 
 /*@COMMON@*/
-#define H_FIND_LAST_NOT_OF(NAME, KNOWN) void NAME(void) { ARB(s); ARB(t); VF_INPUT(unsigned long, pos); VF_INPUT(unsigned char, c); VF_INPUT(char, ch); VF_INPUT(unsigned char, which); view_t h = view_of(&s), b = view_of(&t); _Bool cs = which == 2; \
-  __CPROVER_assume(which <= 3 && c <= N + 1 - cs); XBUF(char, src, (unsigned long)c + cs, N + 1); if (cs) CSTR_ASSUME(src_in, c, N + 1); NEEDLE(nd, which == 0, which == 3); \
-  KNOWN; unsigned long r = which == 0 ? s_flno_str(&s, &t, pos) : which == 1 ? s_flno_ptr_n(&s, src, pos, c) : which == 2 ? s_flno_cstr(&s, src, pos) : s_flno_ch(&s, ch, pos); \
-  VF_ASSERT(r == sp_flo(h, nd.a, nd.n, pos, 1), "C04: find_last_not_of(str | s, pos, n | char const* | ch, pos): the highest xpos <= pos, xpos < size(), whose character is not in the set, else npos"); UNCHANGED(s, h); VF_REACH(); }
-/*@GROUP name=find_last_not_of props=C04,C02 kind=K unwind=12 when=VF_N<=7@*/
-H_FIND_LAST_NOT_OF(h_find_last_not_of, VF_KNOWN(C04_find_last_empty, h.n == 0))
-/*@GROUP name=find_last_not_of_u21 props=C04,C02 kind=K unwind=21 when=7<VF_N<=16@*/
-H_FIND_LAST_NOT_OF(h_find_last_not_of_u21, VF_KNOWN(C04_find_last_empty, h.n == 0))
-/*@GROUP name=find_last_not_of_u36 props=C04,C02 kind=K unwind=36 when=VF_N>16 tier=thorough timeout=3000@*/
-H_FIND_LAST_NOT_OF(h_find_last_not_of_u36, VF_KNOWN(C04_find_last_empty, h.n == 0))
+#define H_RFIND_CSTR(NAME, KNOWN) void NAME(void) { ARB(s); VF_INPUT(unsigned long, pos); VF_INPUT(unsigned char, c); view_t h = view_of(&s); __CPROVER_assume(c <= N + 1); CSTR(src, c, N + 1); seq_t nd = seq_sub(src, c, 0, NPOS); \
+  KNOWN; unsigned long r = s_rfind_cstr(&s, src, pos); \
+  VF_ASSERT(r == sp_rfind(h, nd.a, nd.n, pos), "C04: rfind(char const*, pos): the highest xpos <= pos with xpos + n <= size() and equal characters, else npos"); UNCHANGED(s, h); VF_REACH(); }
+/*@GROUP name=rfind_cstr props=C04,C02 kind=K unwind=10 when=VF_N<=7 cost=3 objbits=12@*/
+H_RFIND_CSTR(h_rfind_cstr, ((void)0))
+/*@GROUP name=rfind_cstr_m props=C04,C02 kind=K unwind=19 when=7<VF_N<=16 cost=3 objbits=12 tier=thorough@*/
+H_RFIND_CSTR(h_rfind_cstr_m, ((void)0))
+/*@GROUP name=rfind_cstr_w props=C04,C02 kind=K unwind=34 when=VF_N>16 cost=3 objbits=12 tier=thorough timeout=3000@*/
+H_RFIND_CSTR(h_rfind_cstr_w, ((void)0))
+
+/*@COMMON@*/
+#define H_RFIND_CH(NAME, KNOWN) void NAME(void) { ARB(s); VF_INPUT(unsigned long, pos); VF_INPUT(char, ch); view_t h = view_of(&s); seq_t nd = seq_sub(&ch, 1, 0, NPOS); \
+  KNOWN; unsigned long r = s_rfind_ch(&s, ch, pos); \
+  VF_ASSERT(r == sp_rfind(h, nd.a, nd.n, pos), "C04: rfind(ch, pos): the highest xpos <= pos with xpos + n <= size() and equal characters, else npos"); UNCHANGED(s, h); VF_REACH(); }
+/*@GROUP name=rfind_ch props=C04,C02 kind=K unwind=10 when=VF_N<=7@*/
+H_RFIND_CH(h_rfind_ch, ((void)0))
+/*@GROUP name=rfind_ch_m props=C04,C02 kind=K unwind=19 when=7<VF_N<=16@*/
+H_RFIND_CH(h_rfind_ch_m, ((void)0))
+/*@GROUP name=rfind_ch_w props=C04,C02 kind=K unwind=34 when=VF_N>16 tier=thorough timeout=3000@*/
+H_RFIND_CH(h_rfind_ch_w, ((void)0))
+
+/*@COMMON@*/
+#define H_FIND_FIRST_OF_STR(NAME, KNOWN) void NAME(void) { ARB(s); ARB(t); VF_INPUT(unsigned long, pos); view_t h = view_of(&s), b = view_of(&t); seq_t nd = seq_sub(b.a, b.n, 0, NPOS); \
+  KNOWN; unsigned long r = s_ffo_str(&s, &t, pos); \
+  VF_ASSERT(r == sp_ffo(h, nd.a, nd.n, pos, 0), "C04: find_first_of(str, pos): the lowest xpos >= pos whose character is in the set, else npos"); UNCHANGED(s, h); VF_REACH(); }
+/*@GROUP name=find_first_of_str props=C04,C02 kind=K unwind=11 when=VF_N<=7 objbits=12@*/
+H_FIND_FIRST_OF_STR(h_find_first_of_str, ((void)0))
+/*@GROUP name=find_first_of_str_m props=C04,C02 kind=K unwind=20 when=7<VF_N<=16 objbits=12 tier=thorough@*/
+H_FIND_FIRST_OF_STR(h_find_first_of_str_m, ((void)0))
+/*@GROUP name=find_first_of_str_w props=C04,C02 kind=K unwind=35 when=VF_N>16 objbits=12 tier=thorough timeout=3000@*/
+H_FIND_FIRST_OF_STR(h_find_first_of_str_w, ((void)0))
+
+/*@COMMON@*/
+#define H_FIND_FIRST_OF_BUF(NAME, KNOWN) void NAME(void) { ARB(s); VF_INPUT(unsigned long, pos); VF_INPUT(unsigned char, c); VF_INPUT_BOOL(sv); view_t h = view_of(&s); __CPROVER_assume(c <= N + 1); XBUF(char, src, c, N + 1); seq_t nd = seq_sub(src, c, 0, NPOS); \
+  KNOWN; unsigned long r = sv ? s_ffo_sv(&s, src, c, pos) : s_ffo_ptr_n(&s, src, pos, c); \
+  VF_ASSERT(r == sp_ffo(h, nd.a, nd.n, pos, 0), "C04: find_first_of(s, pos, n | sv): the lowest xpos >= pos whose character is in the set, else npos"); UNCHANGED(s, h); VF_REACH(); }
+/*@GROUP name=find_first_of_buf props=C04,C02 kind=K unwind=11 when=VF_N<=7 objbits=12@*/
+H_FIND_FIRST_OF_BUF(h_find_first_of_buf, ((void)0))
+/*@GROUP name=find_first_of_buf_m props=C04,C02 kind=K unwind=20 when=7<VF_N<=16 objbits=12 tier=thorough@*/
+H_FIND_FIRST_OF_BUF(h_find_first_of_buf_m, ((void)0))
+/*@GROUP name=find_first_of_buf_w props=C04,C02 kind=K unwind=35 when=VF_N>16 objbits=12 tier=thorough timeout=3000@*/
+H_FIND_FIRST_OF_BUF(h_find_first_of_buf_w, ((void)0))
+
+/*@COMMON@*/
+#define H_FIND_FIRST_OF_CSTR(NAME, KNOWN) void NAME(void) { ARB(s); VF_INPUT(unsigned long, pos); VF_INPUT(unsigned char, c); view_t h = view_of(&s); __CPROVER_assume(c <= N + 1); CSTR(src, c, N + 1); seq_t nd = seq_sub(src, c, 0, NPOS); \
+  KNOWN; unsigned long r = s_ffo_cstr(&s, src, pos); \
+  VF_ASSERT(r == sp_ffo(h, nd.a, nd.n, pos, 0), "C04: find_first_of(char const*, pos): the lowest xpos >= pos whose character is in the set, else npos"); UNCHANGED(s, h); VF_REACH(); }
+/*@GROUP name=find_first_of_cstr props=C04,C02 kind=K unwind=11 when=VF_N<=7 objbits=12@*/
+H_FIND_FIRST_OF_CSTR(h_find_first_of_cstr, ((void)0))
+/*@GROUP name=find_first_of_cstr_m props=C04,C02 kind=K unwind=20 when=7<VF_N<=16 objbits=12 tier=thorough@*/
+H_FIND_FIRST_OF_CSTR(h_find_first_of_cstr_m, ((void)0))
+/*@GROUP name=find_first_of_cstr_w props=C04,C02 kind=K unwind=35 when=VF_N>16 objbits=12 tier=thorough timeout=3000@*/
+H_FIND_FIRST_OF_CSTR(h_find_first_of_cstr_w, ((void)0))
+
+/*@COMMON@*/
+#define H_FIND_FIRST_OF_CH(NAME, KNOWN) void NAME(void) { ARB(s); VF_INPUT(unsigned long, pos); VF_INPUT(char, ch); view_t h = view_of(&s); seq_t nd = seq_sub(&ch, 1, 0, NPOS); \
+  KNOWN; unsigned long r = s_ffo_ch(&s, ch, pos); \
+  VF_ASSERT(r == sp_ffo(h, nd.a, nd.n, pos, 0), "C04: find_first_of(ch, pos): the lowest xpos >= pos whose character is in the set, else npos"); UNCHANGED(s, h); VF_REACH(); }
+/*@GROUP name=find_first_of_ch props=C04,C02 kind=K unwind=11 when=VF_N<=7@*/
+H_FIND_FIRST_OF_CH(h_find_first_of_ch, ((void)0))
+/*@GROUP name=find_first_of_ch_m props=C04,C02 kind=K unwind=20 when=7<VF_N<=16@*/
+H_FIND_FIRST_OF_CH(h_find_first_of_ch_m, ((void)0))
+/*@GROUP name=find_first_of_ch_w props=C04,C02 kind=K unwind=35 when=VF_N>16 tier=thorough timeout=3000@*/
+H_FIND_FIRST_OF_CH(h_find_first_of_ch_w, ((void)0))
+
+/*@COMMON@*/
+#define H_FIND_FIRST_NOT_OF_STR(NAME, KNOWN) void NAME(void) { ARB(s); ARB(t); VF_INPUT(unsigned long, pos); view_t h = view_of(&s), b = view_of(&t); seq_t nd = seq_sub(b.a, b.n, 0, NPOS); \
+  KNOWN; unsigned long r = s_ffno_str(&s, &t, pos); \
+  VF_ASSERT(r == sp_ffo(h, nd.a, nd.n, pos, 1), "C04: find_first_not_of(str, pos): the lowest xpos >= pos whose character is not in the set, else npos"); UNCHANGED(s, h); VF_REACH(); }
+/*@GROUP name=find_first_not_of_str props=C04,C02 kind=K unwind=11 when=VF_N<=7 objbits=12@*/
+H_FIND_FIRST_NOT_OF_STR(h_find_first_not_of_str, ((void)0))
+/*@GROUP name=find_first_not_of_str_m props=C04,C02 kind=K unwind=20 when=7<VF_N<=16 objbits=12 tier=thorough@*/
+H_FIND_FIRST_NOT_OF_STR(h_find_first_not_of_str_m, ((void)0))
+/*@GROUP name=find_first_not_of_str_w props=C04,C02 kind=K unwind=35 when=VF_N>16 objbits=12 tier=thorough timeout=3000@*/
+H_FIND_FIRST_NOT_OF_STR(h_find_first_not_of_str_w, ((void)0))
+
+/*@COMMON@*/
+#define H_FIND_FIRST_NOT_OF_BUF(NAME, KNOWN) void NAME(void) { ARB(s); VF_INPUT(unsigned long, pos); VF_INPUT(unsigned char, c); view_t h = view_of(&s); __CPROVER_assume(c <= N + 1); XBUF(char, src, c, N + 1); seq_t nd = seq_sub(src, c, 0, NPOS); \
+  KNOWN; unsigned long r = s_ffno_ptr_n(&s, src, pos, c); \
+  VF_ASSERT(r == sp_ffo(h, nd.a, nd.n, pos, 1), "C04: find_first_not_of(s, pos, n): the lowest xpos >= pos whose character is not in the set, else npos"); UNCHANGED(s, h); VF_REACH(); }
+/*@GROUP name=find_first_not_of_buf props=C04,C02 kind=K unwind=11 when=VF_N<=7 objbits=12@*/
+H_FIND_FIRST_NOT_OF_BUF(h_find_first_not_of_buf, ((void)0))
+/*@GROUP name=find_first_not_of_buf_m props=C04,C02 kind=K unwind=20 when=7<VF_N<=16 objbits=12 tier=thorough@*/
+H_FIND_FIRST_NOT_OF_BUF(h_find_first_not_of_buf_m, ((void)0))
+/*@GROUP name=find_first_not_of_buf_w props=C04,C02 kind=K unwind=35 when=VF_N>16 objbits=12 tier=thorough timeout=3000@*/
+H_FIND_FIRST_NOT_OF_BUF(h_find_first_not_of_buf_w, ((void)0))
+
+/*@COMMON@*/
+#define H_FIND_FIRST_NOT_OF_CSTR(NAME, KNOWN) void NAME(void) { ARB(s); VF_INPUT(unsigned long, pos); VF_INPUT(unsigned char, c); view_t h = view_of(&s); __CPROVER_assume(c <= N + 1); CSTR(src, c, N + 1); seq_t nd = seq_sub(src, c, 0, NPOS); \
+  KNOWN; unsigned long r = s_ffno_cstr(&s, src, pos); \
+  VF_ASSERT(r == sp_ffo(h, nd.a, nd.n, pos, 1), "C04: find_first_not_of(char const*, pos): the lowest xpos >= pos whose character is not in the set, else npos"); UNCHANGED(s, h); VF_REACH(); }
+/*@GROUP name=find_first_not_of_cstr props=C04,C02 kind=K unwind=11 when=VF_N<=7 objbits=12@*/
+H_FIND_FIRST_NOT_OF_CSTR(h_find_first_not_of_cstr, ((void)0))
+/*@GROUP name=find_first_not_of_cstr_m props=C04,C02 kind=K unwind=20 when=7<VF_N<=16 objbits=12 tier=thorough@*/
+H_FIND_FIRST_NOT_OF_CSTR(h_find_first_not_of_cstr_m, ((void)0))
+/*@GROUP name=find_first_not_of_cstr_w props=C04,C02 kind=K unwind=35 when=VF_N>16 objbits=12 tier=thorough timeout=3000@*/
+H_FIND_FIRST_NOT_OF_CSTR(h_find_first_not_of_cstr_w, ((void)0))
+
+/*@COMMON@*/
+#define H_FIND_FIRST_NOT_OF_CH(NAME, KNOWN) void NAME(void) { ARB(s); VF_INPUT(unsigned long, pos); VF_INPUT(char, ch); view_t h = view_of(&s); seq_t nd = seq_sub(&ch, 1, 0, NPOS); \
+  KNOWN; unsigned long r = s_ffno_ch(&s, ch, pos); \
+  VF_ASSERT(r == sp_ffo(h, nd.a, nd.n, pos, 1), "C04: find_first_not_of(ch, pos): the lowest xpos >= pos whose character is not in the set, else npos"); UNCHANGED(s, h); VF_REACH(); }
+/*@GROUP name=find_first_not_of_ch props=C04,C02 kind=K unwind=11 when=VF_N<=7@*/
+H_FIND_FIRST_NOT_OF_CH(h_find_first_not_of_ch, ((void)0))
+/*@GROUP name=find_first_not_of_ch_m props=C04,C02 kind=K unwind=20 when=7<VF_N<=16@*/
+H_FIND_FIRST_NOT_OF_CH(h_find_first_not_of_ch_m, ((void)0))
+/*@GROUP name=find_first_not_of_ch_w props=C04,C02 kind=K unwind=35 when=VF_N>16 tier=thorough timeout=3000@*/
+H_FIND_FIRST_NOT_OF_CH(h_find_first_not_of_ch_w, ((void)0))
+
+/*@COMMON@*/
+#define H_FIND_LAST_OF_STR(NAME, KNOWN) void NAME(void) { ARB(s); ARB(t); VF_INPUT(unsigned long, pos); view_t h = view_of(&s), b = view_of(&t); seq_t nd = seq_sub(b.a, b.n, 0, NPOS); \
+  KNOWN; unsigned long r = s_flo_str(&s, &t, pos); \
+  VF_ASSERT(r == sp_flo(h, nd.a, nd.n, pos, 0), "C04: find_last_of(str, pos): the highest xpos <= pos, xpos < size(), whose character is in the set, else npos"); UNCHANGED(s, h); VF_REACH(); }
+/*@GROUP name=find_last_of_str props=C04,C02 kind=K unwind=11 when=VF_N<=7 objbits=12@*/
+H_FIND_LAST_OF_STR(h_find_last_of_str, VF_KNOWN(C04_find_last_empty, h.n == 0))
+/*@GROUP name=find_last_of_str_m props=C04,C02 kind=K unwind=20 when=7<VF_N<=16 objbits=12 tier=thorough@*/
+H_FIND_LAST_OF_STR(h_find_last_of_str_m, VF_KNOWN(C04_find_last_empty, h.n == 0))
+/*@GROUP name=find_last_of_str_w props=C04,C02 kind=K unwind=35 when=VF_N>16 objbits=12 tier=thorough timeout=3000@*/
+H_FIND_LAST_OF_STR(h_find_last_of_str_w, VF_KNOWN(C04_find_last_empty, h.n == 0))
+
+/*@COMMON@*/
+#define H_FIND_LAST_OF_BUF(NAME, KNOWN) void NAME(void) { ARB(s); VF_INPUT(unsigned long, pos); VF_INPUT(unsigned char, c); view_t h = view_of(&s); __CPROVER_assume(c <= N + 1); XBUF(char, src, c, N + 1); seq_t nd = seq_sub(src, c, 0, NPOS); \
+  KNOWN; unsigned long r = s_flo_ptr_n(&s, src, pos, c); \
+  VF_ASSERT(r == sp_flo(h, nd.a, nd.n, pos, 0), "C04: find_last_of(s, pos, n): the highest xpos <= pos, xpos < size(), whose character is in the set, else npos"); UNCHANGED(s, h); VF_REACH(); }
+/*@GROUP name=find_last_of_buf props=C04,C02 kind=K unwind=11 when=VF_N<=7 objbits=12@*/
+H_FIND_LAST_OF_BUF(h_find_last_of_buf, VF_KNOWN(C04_find_last_empty, h.n == 0))
+/*@GROUP name=find_last_of_buf_m props=C04,C02 kind=K unwind=20 when=7<VF_N<=16 objbits=12 tier=thorough@*/
+H_FIND_LAST_OF_BUF(h_find_last_of_buf_m, VF_KNOWN(C04_find_last_empty, h.n == 0))
+/*@GROUP name=find_last_of_buf_w props=C04,C02 kind=K unwind=35 when=VF_N>16 objbits=12 tier=thorough timeout=3000@*/
+H_FIND_LAST_OF_BUF(h_find_last_of_buf_w, VF_KNOWN(C04_find_last_empty, h.n == 0))
+
+/*@COMMON@*/
+#define H_FIND_LAST_OF_CSTR(NAME, KNOWN) void NAME(void) { ARB(s); VF_INPUT(unsigned long, pos); VF_INPUT(unsigned char, c); view_t h = view_of(&s); __CPROVER_assume(c <= N + 1); CSTR(src, c, N + 1); seq_t nd = seq_sub(src, c, 0, NPOS); \
+  KNOWN; unsigned long r = s_flo_cstr(&s, src, pos); \
+  VF_ASSERT(r == sp_flo(h, nd.a, nd.n, pos, 0), "C04: find_last_of(char const*, pos): the highest xpos <= pos, xpos < size(), whose character is in the set, else npos"); UNCHANGED(s, h); VF_REACH(); }
+/*@GROUP name=find_last_of_cstr props=C04,C02 kind=K unwind=11 when=VF_N<=7 objbits=12@*/
+H_FIND_LAST_OF_CSTR(h_find_last_of_cstr, VF_KNOWN(C04_find_last_empty, h.n == 0))
+/*@GROUP name=find_last_of_cstr_m props=C04,C02 kind=K unwind=20 when=7<VF_N<=16 objbits=12 tier=thorough@*/
+H_FIND_LAST_OF_CSTR(h_find_last_of_cstr_m, VF_KNOWN(C04_find_last_empty, h.n == 0))
+/*@GROUP name=find_last_of_cstr_w props=C04,C02 kind=K unwind=35 when=VF_N>16 objbits=12 tier=thorough timeout=3000@*/
+H_FIND_LAST_OF_CSTR(h_find_last_of_cstr_w, VF_KNOWN(C04_find_last_empty, h.n == 0))
+
+/*@COMMON@*/
+#define H_FIND_LAST_OF_CH(NAME, KNOWN) void NAME(void) { ARB(s); VF_INPUT(unsigned long, pos); VF_INPUT(char, ch); view_t h = view_of(&s); seq_t nd = seq_sub(&ch, 1, 0, NPOS); \
+  KNOWN; unsigned long r = s_flo_ch(&s, ch, pos); \
+  VF_ASSERT(r == sp_flo(h, nd.a, nd.n, pos, 0), "C04: find_last_of(ch, pos): the highest xpos <= pos, xpos < size(), whose character is in the set, else npos"); UNCHANGED(s, h); VF_REACH(); }
+/*@GROUP name=find_last_of_ch props=C04,C02 kind=K unwind=11 when=VF_N<=7@*/
+H_FIND_LAST_OF_CH(h_find_last_of_ch, VF_KNOWN(C04_find_last_empty, h.n == 0))
+/*@GROUP name=find_last_of_ch_m props=C04,C02 kind=K unwind=20 when=7<VF_N<=16@*/
+H_FIND_LAST_OF_CH(h_find_last_of_ch_m, VF_KNOWN(C04_find_last_empty, h.n == 0))
+/*@GROUP name=find_last_of_ch_w props=C04,C02 kind=K unwind=35 when=VF_N>16 tier=thorough timeout=3000@*/
+H_FIND_LAST_OF_CH(h_find_last_of_ch_w, VF_KNOWN(C04_find_last_empty, h.n == 0))
+
+/*@COMMON@*/
+#define H_FIND_LAST_NOT_OF_STR(NAME, KNOWN) void NAME(void) { ARB(s); ARB(t); VF_INPUT(unsigned long, pos); view_t h = view_of(&s), b = view_of(&t); seq_t nd = seq_sub(b.a, b.n, 0, NPOS); \
+  KNOWN; unsigned long r = s_flno_str(&s, &t, pos); \
+  VF_ASSERT(r == sp_flo(h, nd.a, nd.n, pos, 1), "C04: find_last_not_of(str, pos): the highest xpos <= pos, xpos < size(), whose character is not in the set, else npos"); UNCHANGED(s, h); VF_REACH(); }
+/*@GROUP name=find_last_not_of_str props=C04,C02 kind=K unwind=11 when=VF_N<=7 objbits=12@*/
+H_FIND_LAST_NOT_OF_STR(h_find_last_not_of_str, VF_KNOWN(C04_find_last_empty, h.n == 0))
+/*@GROUP name=find_last_not_of_str_m props=C04,C02 kind=K unwind=20 when=7<VF_N<=16 objbits=12 tier=thorough@*/
+H_FIND_LAST_NOT_OF_STR(h_find_last_not_of_str_m, VF_KNOWN(C04_find_last_empty, h.n == 0))
+/*@GROUP name=find_last_not_of_str_w props=C04,C02 kind=K unwind=35 when=VF_N>16 objbits=12 tier=thorough timeout=3000@*/
+H_FIND_LAST_NOT_OF_STR(h_find_last_not_of_str_w, VF_KNOWN(C04_find_last_empty, h.n == 0))
+
+/*@COMMON@*/
+#define H_FIND_LAST_NOT_OF_BUF(NAME, KNOWN) void NAME(void) { ARB(s); VF_INPUT(unsigned long, pos); VF_INPUT(unsigned char, c); view_t h = view_of(&s); __CPROVER_assume(c <= N + 1); XBUF(char, src, c, N + 1); seq_t nd = seq_sub(src, c, 0, NPOS); \
+  KNOWN; unsigned long r = s_flno_ptr_n(&s, src, pos, c); \
+  VF_ASSERT(r == sp_flo(h, nd.a, nd.n, pos, 1), "C04: find_last_not_of(s, pos, n): the highest xpos <= pos, xpos < size(), whose character is not in the set, else npos"); UNCHANGED(s, h); VF_REACH(); }
+/*@GROUP name=find_last_not_of_buf props=C04,C02 kind=K unwind=11 when=VF_N<=7 objbits=12@*/
+H_FIND_LAST_NOT_OF_BUF(h_find_last_not_of_buf, VF_KNOWN(C04_find_last_empty, h.n == 0))
+/*@GROUP name=find_last_not_of_buf_m props=C04,C02 kind=K unwind=20 when=7<VF_N<=16 objbits=12 tier=thorough@*/
+H_FIND_LAST_NOT_OF_BUF(h_find_last_not_of_buf_m, VF_KNOWN(C04_find_last_empty, h.n == 0))
+/*@GROUP name=find_last_not_of_buf_w props=C04,C02 kind=K unwind=35 when=VF_N>16 objbits=12 tier=thorough timeout=3000@*/
+H_FIND_LAST_NOT_OF_BUF(h_find_last_not_of_buf_w, VF_KNOWN(C04_find_last_empty, h.n == 0))
+
+/*@COMMON@*/
+#define H_FIND_LAST_NOT_OF_CSTR(NAME, KNOWN) void NAME(void) { ARB(s); VF_INPUT(unsigned long, pos); VF_INPUT(unsigned char, c); view_t h = view_of(&s); __CPROVER_assume(c <= N + 1); CSTR(src, c, N + 1); seq_t nd = seq_sub(src, c, 0, NPOS); \
+  KNOWN; unsigned long r = s_flno_cstr(&s, src, pos); \
+  VF_ASSERT(r == sp_flo(h, nd.a, nd.n, pos, 1), "C04: find_last_not_of(char const*, pos): the highest xpos <= pos, xpos < size(), whose character is not in the set, else npos"); UNCHANGED(s, h); VF_REACH(); }
+/*@GROUP name=find_last_not_of_cstr props=C04,C02 kind=K unwind=11 when=VF_N<=7 objbits=12@*/
+H_FIND_LAST_NOT_OF_CSTR(h_find_last_not_of_cstr, VF_KNOWN(C04_find_last_empty, h.n == 0))
+/*@GROUP name=find_last_not_of_cstr_m props=C04,C02 kind=K unwind=20 when=7<VF_N<=16 objbits=12 tier=thorough@*/
+H_FIND_LAST_NOT_OF_CSTR(h_find_last_not_of_cstr_m, VF_KNOWN(C04_find_last_empty, h.n == 0))
+/*@GROUP name=find_last_not_of_cstr_w props=C04,C02 kind=K unwind=35 when=VF_N>16 objbits=12 tier=thorough timeout=3000@*/
+H_FIND_LAST_NOT_OF_CSTR(h_find_last_not_of_cstr_w, VF_KNOWN(C04_find_last_empty, h.n == 0))
+
+/*@COMMON@*/
+#define H_FIND_LAST_NOT_OF_CH(NAME, KNOWN) void NAME(void) { ARB(s); VF_INPUT(unsigned long, pos); VF_INPUT(char, ch); view_t h = view_of(&s); seq_t nd = seq_sub(&ch, 1, 0, NPOS); \
+  KNOWN; unsigned long r = s_flno_ch(&s, ch, pos); \
+  VF_ASSERT(r == sp_flo(h, nd.a, nd.n, pos, 1), "C04: find_last_not_of(ch, pos): the highest xpos <= pos, xpos < size(), whose character is not in the set, else npos"); UNCHANGED(s, h); VF_REACH(); }
+/*@GROUP name=find_last_not_of_ch props=C04,C02 kind=K unwind=11 when=VF_N<=7@*/
+H_FIND_LAST_NOT_OF_CH(h_find_last_not_of_ch, VF_KNOWN(C04_find_last_empty, h.n == 0))
+/*@GROUP name=find_last_not_of_ch_m props=C04,C02 kind=K unwind=20 when=7<VF_N<=16@*/
+H_FIND_LAST_NOT_OF_CH(h_find_last_not_of_ch_m, VF_KNOWN(C04_find_last_empty, h.n == 0))
+/*@GROUP name=find_last_not_of_ch_w props=C04,C02 kind=K unwind=35 when=VF_N>16 tier=thorough timeout=3000@*/
+H_FIND_LAST_NOT_OF_CH(h_find_last_not_of_ch_w, VF_KNOWN(C04_find_last_empty, h.n == 0))
+
+/*@COMMON@*/
+/* ---- default position arguments: [string.find] gives the forward searches pos = 0 and the backward ones pos = npos */
+
+/*@COMMON@*/
+#define H_DEFAULTS_FWD(NAME, KNOWN) void NAME(void) { ARB(s); ARB(t); VF_INPUT(char, ch); VF_INPUT(unsigned char, which); view_t h = view_of(&s), b = view_of(&t); __CPROVER_assume(which <= 3); \
+  seq_t nd = which == 1 ? seq_sub(&ch, 1, 0, NPOS) : seq_sub(b.a, b.n, 0, NPOS); \
+  KNOWN; unsigned long r = which == 0 ? s_find_str_d(&s, &t) : which == 1 ? s_find_ch_d(&s, ch) : which == 2 ? s_ffo_str_d(&s, &t) : s_ffno_str_d(&s, &t); \
+  unsigned long e = which <= 1 ? sp_find(h, nd.a, nd.n, 0) : sp_ffo(h, nd.a, nd.n, 0, which == 3); \
+  VF_ASSERT(r == e, "C04: find / find_first_of / find_first_not_of without pos search from 0"); UNCHANGED(s, h); VF_REACH(); }
+/*@GROUP name=defaults_fwd props=C04,C02 kind=K unwind=11 when=VF_N<=7 objbits=12@*/
+H_DEFAULTS_FWD(h_defaults_fwd, VF_KNOWN(C04_find_overrun, which <= 1 && sp_has_inner_nul(nd)))
+/*@GROUP name=defaults_fwd_m props=C04,C02 kind=K unwind=20 when=7<VF_N<=16 objbits=12 tier=thorough@*/
+H_DEFAULTS_FWD(h_defaults_fwd_m, VF_KNOWN(C04_find_overrun, which <= 1 && sp_has_inner_nul(nd)))
+/*@GROUP name=defaults_fwd_w props=C04,C02 kind=K unwind=35 when=VF_N>16 objbits=12 tier=thorough timeout=3000@*/
+H_DEFAULTS_FWD(h_defaults_fwd_w, VF_KNOWN(C04_find_overrun, which <= 1 && sp_has_inner_nul(nd)))
+
+/*@COMMON@*/
+#define H_DEFAULTS_RFIND(NAME, KNOWN) void NAME(void) { ARB(s); ARB(t); VF_INPUT(unsigned char, c); VF_INPUT(char, ch); VF_INPUT(unsigned char, kind); view_t h = view_of(&s), b = view_of(&t); __CPROVER_assume(kind <= 2 && c <= N); CSTR(src, c, N); \
+  seq_t nd = kind == 0 ? seq_sub(b.a, b.n, 0, NPOS) : kind == 1 ? seq_sub(src, c, 0, NPOS) : seq_sub(&ch, 1, 0, NPOS); \
+  KNOWN; unsigned long r = kind == 0 ? s_rfind_str_d(&s, &t) : kind == 1 ? s_rfind_cstr_d(&s, src) : s_rfind_ch_d(&s, ch); \
+  VF_ASSERT(r == sp_rfind(h, nd.a, nd.n, NPOS), "C04: rfind(str | char const* | ch) without pos searches from npos ([string.find])"); UNCHANGED(s, h); VF_REACH(); }
+/*@GROUP name=defaults_rfind props=C04,C02 kind=K unwind=10 when=VF_N<=7 cost=3 objbits=12@*/
+H_DEFAULTS_RFIND(h_defaults_rfind, VF_KNOWN(C04_backward_default_pos, sp_rfind(h, nd.a, nd.n, NPOS) != sp_rfind(h, nd.a, nd.n, 0)))
+/*@GROUP name=defaults_rfind_m props=C04,C02 kind=K unwind=19 when=7<VF_N<=16 cost=3 objbits=12 tier=thorough@*/
+H_DEFAULTS_RFIND(h_defaults_rfind_m, VF_KNOWN(C04_backward_default_pos, sp_rfind(h, nd.a, nd.n, NPOS) != sp_rfind(h, nd.a, nd.n, 0)))
+/*@GROUP name=defaults_rfind_w props=C04,C02 kind=K unwind=34 when=VF_N>16 cost=3 objbits=12 tier=thorough timeout=3000@*/
+H_DEFAULTS_RFIND(h_defaults_rfind_w, VF_KNOWN(C04_backward_default_pos, sp_rfind(h, nd.a, nd.n, NPOS) != sp_rfind(h, nd.a, nd.n, 0)))
+
+/*@COMMON@*/
+#define H_DEFAULTS_FIND_LAST_OF(NAME, KNOWN) void NAME(void) { ARB(s); ARB(t); VF_INPUT(unsigned char, c); VF_INPUT(char, ch); VF_INPUT(unsigned char, kind); view_t h = view_of(&s), b = view_of(&t); __CPROVER_assume(kind <= 2 && c <= N); CSTR(src, c, N); \
+  seq_t nd = kind == 0 ? seq_sub(b.a, b.n, 0, NPOS) : kind == 1 ? seq_sub(src, c, 0, NPOS) : seq_sub(&ch, 1, 0, NPOS); \
+  KNOWN; unsigned long r = kind == 0 ? s_flo_str_d(&s, &t) : kind == 1 ? s_flo_cstr_d(&s, src) : s_flo_ch_d(&s, ch); \
+  VF_ASSERT(r == sp_flo(h, nd.a, nd.n, NPOS, 0), "C04: find_last_of(str | char const* | ch) without pos searches from npos ([string.find])"); UNCHANGED(s, h); VF_REACH(); }
+/*@GROUP name=defaults_find_last_of props=C04,C02 kind=K unwind=11 when=VF_N<=7 objbits=12@*/
+H_DEFAULTS_FIND_LAST_OF(h_defaults_find_last_of, VF_KNOWN(C04_find_last_empty, h.n == 0); VF_KNOWN(C04_backward_default_pos, sp_flo(h, nd.a, nd.n, NPOS, 0) != sp_flo(h, nd.a, nd.n, 0, 0)))
+/*@GROUP name=defaults_find_last_of_m props=C04,C02 kind=K unwind=20 when=7<VF_N<=16 objbits=12 tier=thorough@*/
+H_DEFAULTS_FIND_LAST_OF(h_defaults_find_last_of_m, VF_KNOWN(C04_find_last_empty, h.n == 0); VF_KNOWN(C04_backward_default_pos, sp_flo(h, nd.a, nd.n, NPOS, 0) != sp_flo(h, nd.a, nd.n, 0, 0)))
+/*@GROUP name=defaults_find_last_of_w props=C04,C02 kind=K unwind=35 when=VF_N>16 objbits=12 tier=thorough timeout=3000@*/
+H_DEFAULTS_FIND_LAST_OF(h_defaults_find_last_of_w, VF_KNOWN(C04_find_last_empty, h.n == 0); VF_KNOWN(C04_backward_default_pos, sp_flo(h, nd.a, nd.n, NPOS, 0) != sp_flo(h, nd.a, nd.n, 0, 0)))
+
+/*@COMMON@*/
+#define H_DEFAULTS_FIND_LAST_NOT_OF(NAME, KNOWN) void NAME(void) { ARB(s); ARB(t); VF_INPUT(unsigned char, c); VF_INPUT(char, ch); VF_INPUT(unsigned char, kind); view_t h = view_of(&s), b = view_of(&t); __CPROVER_assume(kind <= 2 && c <= N); CSTR(src, c, N); \
+  seq_t nd = kind == 0 ? seq_sub(b.a, b.n, 0, NPOS) : kind == 1 ? seq_sub(src, c, 0, NPOS) : seq_sub(&ch, 1, 0, NPOS); \
+  KNOWN; unsigned long r = kind == 0 ? s_flno_str_d(&s, &t) : kind == 1 ? s_flno_cstr_d(&s, src) : s_flno_ch_d(&s, ch); \
+  VF_ASSERT(r == sp_flo(h, nd.a, nd.n, NPOS, 1), "C04: find_last_not_of(str | char const* | ch) without pos searches from npos ([string.find])"); UNCHANGED(s, h); VF_REACH(); }
+/*@GROUP name=defaults_find_last_not_of props=C04,C02 kind=K unwind=11 when=VF_N<=7 objbits=12@*/
+H_DEFAULTS_FIND_LAST_NOT_OF(h_defaults_find_last_not_of, VF_KNOWN(C04_find_last_empty, h.n == 0); VF_KNOWN(C04_backward_default_pos, sp_flo(h, nd.a, nd.n, NPOS, 1) != sp_flo(h, nd.a, nd.n, 0, 1)))
+/*@GROUP name=defaults_find_last_not_of_m props=C04,C02 kind=K unwind=20 when=7<VF_N<=16 objbits=12 tier=thorough@*/
+H_DEFAULTS_FIND_LAST_NOT_OF(h_defaults_find_last_not_of_m, VF_KNOWN(C04_find_last_empty, h.n == 0); VF_KNOWN(C04_backward_default_pos, sp_flo(h, nd.a, nd.n, NPOS, 1) != sp_flo(h, nd.a, nd.n, 0, 1)))
+/*@GROUP name=defaults_find_last_not_of_w props=C04,C02 kind=K unwind=35 when=VF_N>16 objbits=12 tier=thorough timeout=3000@*/
+H_DEFAULTS_FIND_LAST_NOT_OF(h_defaults_find_last_not_of_w, VF_KNOWN(C04_find_last_empty, h.n == 0); VF_KNOWN(C04_backward_default_pos, sp_flo(h, nd.a, nd.n, NPOS, 1) != sp_flo(h, nd.a, nd.n, 0, 1)))
+
+/*@COMMON@*/
+/* ---- operator+: (string, string) and (x, string) append through push_back (contract: the result fits); (string, char const*) and (string, ch) clamp */
+
+/*@COMMON@*/
+#define H_PLUS(NAME, KNOWN) void NAME(void) { ARB(a); ARB(t); VF_INPUT(S, r); VF_INPUT(unsigned char, c); VF_INPUT(char, ch); VF_INPUT(unsigned char, which); view_t oa = view_of(&a), b = view_of(&t); fill_t f = sp_fill(ch); \
+  __CPROVER_assume(which <= 4 && c <= N + 1); CSTR(src, c, N + 1); view_t e, one = sp_splice(sp_empty(), 0, 0, f.a, N >= 1 ? 1 : 0), lhs = sp_splice(sp_empty(), 0, 0, src, umin(c, N)); \
+  if (which == 0) { __CPROVER_assume(b.n <= N - oa.n); s_plus_str(&r, &a, &t); e = sp_splice(oa, oa.n, 0, b.a, b.n); } \
+  else if (which == 1) { s_plus_cstr(&r, &a, src); e = sp_splice(oa, oa.n, 0, src, umin(c, N - oa.n)); } \
+  else if (which == 2) { s_plus_ch(&r, &a, ch); e = sp_splice(oa, oa.n, 0, f.a, umin(1, N - oa.n)); } \
+  else if (which == 3) { __CPROVER_assume(c <= N && oa.n <= N - c); s_cstr_plus(&r, src, &a); e = sp_splice(lhs, c, 0, oa.a, oa.n); } \
+  else { __CPROVER_assume(N >= 1 && oa.n <= N - 1); s_ch_plus(&r, ch, &a); e = sp_splice(one, 1, 0, oa.a, oa.n); } \
+  POST(r, e, "operator+(string, string | char const* | ch) and (char const* | ch, string): the concatenation"); \
+  VF_ASSERT(WF(a) && view_eq(view_of(&a), oa) && WF(t) && view_eq(view_of(&t), b), "operator+ leaves its operands unchanged"); VF_REACH(); }
+/*@GROUP name=plus props=C04,C02,C05 kind=K unwind=11 when=VF_N<=7 objbits=12 unwindset=_ZN3etl4fillIPccEEvT_S2_RKT0_.0:3@*/
+H_PLUS(h_plus, ((void)0))
+/*@GROUP name=plus_m props=C04,C02,C05 kind=K unwind=20 when=7<VF_N<=16 objbits=12 unwindset=_ZN3etl4fillIPccEEvT_S2_RKT0_.0:3@*/
+H_PLUS(h_plus_m, ((void)0))
+/*@GROUP name=plus_w props=C04,C02,C05 kind=K unwind=35 when=VF_N>16 objbits=12 unwindset=_ZN3etl4fillIPccEEvT_S2_RKT0_.0:3 tier=thorough timeout=3000@*/
+H_PLUS(h_plus_w, ((void)0))
+
+/*@COMMON@*/
+/* ---- element access and observers */
+
+/*@COMMON@*/
+#define H_ACCESS(NAME, KNOWN) void NAME(void) { ARB(s); VF_INPUT(unsigned char, i); view_t o = view_of(&s); char *d = data_of(&s); \
+  VF_ASSERT(s_size(&s) == o.n && s_length(&s) == o.n && s_empty(&s) == (o.n == 0) && s_full(&s) == (o.n == N), "size / length / empty / full follow the view"); CAPACITY_UNCHANGED(s); \
+  VF_ASSERT(s_data(&s) == d && s_cdata(&s) == d && s_c_str(&s) == d && s_begin(&s) == d && s_cbegin(&s) == d && s_end(&s) == d + o.n && s_cend(&s) == d + o.n, "data / c_str / begin / end"); \
+  VF_ASSERT(s_rbegin_base(&s) == d + o.n && s_rend_base(&s) == d, "rbegin().base() == end(), rend().base() == begin()"); \
+  VF_ASSERT(s_view_data(&s) == d && s_view_size(&s) == o.n, "operator string_view: (data(), size())"); \
+  VF_ASSERT(s_c_str(&s)[o.n] == 0, "C04: c_str()[size()] == 0"); \
+  if (o.n > 0) { VF_ASSERT(s_front(&s) == d && s_cfront(&s) == d && s_back(&s) == d + (o.n - 1) && s_cback(&s) == d + (o.n - 1), "front / back address the first / last character"); } \
+  if (i <= o.n) { VF_ASSERT(s_index(&s, i) == d + i && s_cindex(&s, i) == d + i, "operator[](i) addresses character i; i == size() addresses the terminator ([string.access])"); } \
+  UNCHANGED(s, o); VF_REACH(); }
+/*@GROUP name=access props=C04,C02,C05 kind=K unwind=11 when=VF_N<=7@*/
+H_ACCESS(h_access, ((void)0))
+/*@GROUP name=access_m props=C04,C02,C05 kind=K unwind=20 when=7<VF_N<=16@*/
+H_ACCESS(h_access_m, ((void)0))
+/*@GROUP name=access_w props=C04,C02,C05 kind=K unwind=35 when=VF_N>16 tier=thorough timeout=3000@*/
+H_ACCESS(h_access_w, ((void)0))
+
+/*@COMMON@*/
+/* ---- C05: violated preconditions reach the handler, the object is still untouched ------------------------------------------ */
+
+/*@COMMON@*/
+#define H_VIOL_GROW(NAME, KNOWN) void NAME(void) { ARB(s); ARB(t); VF_INPUT(unsigned char, op); VF_INPUT(unsigned long, big); VF_INPUT(unsigned char, c); VF_INPUT(char, ch); view_t o = view_of(&s), b = view_of(&t); \
+  __CPROVER_assume(op <= 12 && big > N && c > N && c <= N + 2); CSTR(src, c, N + 2); \
+  if (op == 9 || op == 10) __CPROVER_assume(c > N - o.n); if (op >= 11) __CPROVER_assume(b.n > N - o.n); \
+  KNOWN; EXPECT_VIOLATION(s); if (op <= 4) vf_snap_of = 0; /* constructors: there is no object yet that could stay unmodified */ \
+  if (op == 0) s_ctor_n_ch(&s, big, ch); else if (op == 1) s_ctor_ptr_n(&s, src, big); else if (op == 2) s_ctor_cstr(&s, src); else if (op == 3) s_ctor_range(&s, src, src + c); else if (op == 4) s_ctor_sv(&s, src, c); \
+  else if (op == 5) s_assign_n_ch(&s, big, ch); else if (op == 6) s_assign_ptr_n(&s, src, big); else if (op == 7) s_opassign_cstr(&s, src); else if (op == 8) { __CPROVER_assume(o.n == N); s_push_back(&s, ch); } \
+  else if (op == 9) s_append_range(&s, src, src + c); else if (op == 10) s_assign_range(&s, src, src + c); else if (op == 11) s_append_str(&s, &t); else s_pluseq_str(&s, &t); \
+  VF_NORETURN_EXPECTED(); }
+/*@GROUP name=viol_grow props=C05,C02 kind=K unwind=11 when=VF_N<=7 objbits=12 unwindset=_ZN3etl4fillIPccEEvT_S2_RKT0_.0:3@*/
+H_VIOL_GROW(h_viol_grow, VF_KNOWN(C05_append_range_partial, op >= 9 && o.n < N))
+/*@GROUP name=viol_grow_m props=C05,C02 kind=K unwind=20 when=7<VF_N<=16 objbits=12 unwindset=_ZN3etl4fillIPccEEvT_S2_RKT0_.0:3@*/
+H_VIOL_GROW(h_viol_grow_m, VF_KNOWN(C05_append_range_partial, op >= 9 && o.n < N))
+/*@GROUP name=viol_grow_w props=C05,C02 kind=K unwind=35 when=VF_N>16 objbits=12 unwindset=_ZN3etl4fillIPccEEvT_S2_RKT0_.0:3 tier=thorough timeout=3000@*/
+H_VIOL_GROW(h_viol_grow_w, VF_KNOWN(C05_append_range_partial, op >= 9 && o.n < N))
+
+/*@COMMON@*/
+#define H_VIOL_EMPTY(NAME, KNOWN) void NAME(void) { ARB(s); VF_INPUT(unsigned char, op); __CPROVER_assume(SZ(s) == 0); EXPECT_VIOLATION(s); \
+  if (op == 0) s_pop_back(&s); else if (op == 1) s_back(&s); else if (op == 2) s_front(&s); else if (op == 3) s_cback(&s); else s_cfront(&s); \
+  VF_NORETURN_EXPECTED(); }
+/*@GROUP name=viol_empty props=C05,C02 kind=K unwind=11 when=VF_N<=7@*/
+H_VIOL_EMPTY(h_viol_empty, ((void)0))
+/*@GROUP name=viol_empty_m props=C05,C02 kind=K unwind=20 when=7<VF_N<=16@*/
+H_VIOL_EMPTY(h_viol_empty_m, ((void)0))
+/*@GROUP name=viol_empty_w props=C05,C02 kind=K unwind=35 when=VF_N>16 tier=thorough timeout=3000@*/
+H_VIOL_EMPTY(h_viol_empty_w, ((void)0))
+
+/*@COMMON@*/
+#define H_VIOL_INDEX(NAME, KNOWN) void NAME(void) { ARB(s); VF_INPUT(unsigned long, i); VF_INPUT_BOOL(cst); __CPROVER_assume(i > SZ(s)); EXPECT_VIOLATION(s); if (cst) s_cindex(&s, i); else s_index(&s, i); VF_NORETURN_EXPECTED(); }
+/*@GROUP name=viol_index props=C05,C02 kind=K unwind=11 when=VF_N<=7@*/
+H_VIOL_INDEX(h_viol_index, ((void)0))
+/*@GROUP name=viol_index_m props=C05,C02 kind=K unwind=20 when=7<VF_N<=16@*/
+H_VIOL_INDEX(h_viol_index_m, ((void)0))
+/*@GROUP name=viol_index_w props=C05,C02 kind=K unwind=35 when=VF_N>16 tier=thorough timeout=3000@*/
+H_VIOL_INDEX(h_viol_index_w, ((void)0))
+
+/*@COMMON@*/
+/* a position beyond size() in the overloads that go through string_view::substr or carry their own check */
+#define H_VIOL_POS(NAME, KNOWN) void NAME(void) { ARB(s); ARB(t); VF_INPUT(unsigned char, op); VF_INPUT(unsigned long, p); VF_INPUT(unsigned long, cnt); VF_INPUT(unsigned char, c); view_t o = view_of(&s), b = view_of(&t); \
+  __CPROVER_assume(op <= 13 && p > o.n && c <= N); CSTR(src, c, N); \
+  KNOWN; EXPECT_VIOLATION(s); \
+  if (op == 0) s_compare_pn_str(&s, p, cnt, &t); else if (op == 1) s_compare_pn_cstr(&s, p, cnt, src); else if (op == 2) s_compare_pn_ptr_n(&s, p, cnt, src, c); else if (op == 3) s_compare_pn_sv(&s, p, cnt, src, c); \
+  else if (op == 4) s_compare_pn_str_pn(&s, p, cnt, &t, 0, NPOS); \
+  else if (op == 5) s_replace_str(&s, p, cnt, &t); else if (op == 6) s_replace_ptr_n(&s, p, cnt, src, c); else if (op == 7) s_replace_cstr(&s, p, cnt, src); else if (op == 8) { __CPROVER_assume(b.n > 0); s_replace_str_pos_n(&s, p, cnt, &t, 0, NPOS); } \
+  else { __CPROVER_assume(p > c); if (op == 9) s_assign_sv_pos_n(&s, src, c, p, cnt); else if (op == 10) s_append_sv_pos_n(&s, src, c, p, cnt); else if (op == 11) s_insert_sv_pos_n(&s, 0, src, c, p, cnt); \
+    else if (op == 12) s_compare_pn_sv_pn(&s, 0, NPOS, src, c, p, cnt); else { vf_snap_of = 0; s_ctor_sv_pos_n(&s, src, c, p, cnt); } } \
+  VF_NORETURN_EXPECTED(); }
+/*@GROUP name=viol_pos props=C05,C02 kind=K unwind=11 when=VF_N<=7@*/
+H_VIOL_POS(h_viol_pos, ((void)0))
+/*@GROUP name=viol_pos_m props=C05,C02 kind=K unwind=20 when=7<VF_N<=16@*/
+H_VIOL_POS(h_viol_pos_m, ((void)0))
+/*@GROUP name=viol_pos_w props=C05,C02 kind=K unwind=35 when=VF_N>16 tier=thorough timeout=3000@*/
+H_VIOL_POS(h_viol_pos_w, ((void)0))
+
+/*@COMMON@*/
+/* erase(index > size(), n), erase(position >= end()), erase(first, last > end()); insert(index > size(), s, 0): the cheapest instance of the unchecked
+ * insert position (a silent no-op; with a non-empty source the rotate walks out of the object, see known_findings) */
+#define H_VIOL_POS_UNCHECKED(NAME, KNOWN) void NAME(void) { ARB(s); VF_INPUT(unsigned char, op); VF_INPUT(unsigned char, p); VF_INPUT(unsigned char, q); VF_INPUT(unsigned long, cnt); view_t o = view_of(&s); \
+  __CPROVER_assume(op <= 3 && p > o.n && p <= N && q <= N); XBUF(char, src, 0, N); \
+  KNOWN; EXPECT_VIOLATION(s); \
+  if (op == 0) s_insert_ptr_n(&s, p, src, 0); \
+  else if (op == 1) s_erase_idx(&s, p, cnt); else if (op == 2) { __CPROVER_assume(q >= o.n); s_erase_it(&s, data_of(&s) + q); } \
+  else { __CPROVER_assume(q <= p); s_erase_range(&s, data_of(&s) + q, data_of(&s) + p); } \
+  VF_NORETURN_EXPECTED(); }
+/*@GROUP name=viol_pos_unchecked props=C05,C02 kind=K unwind=11 when=VF_N<=7 objbits=12@*/
+H_VIOL_POS_UNCHECKED(h_viol_pos_unchecked, VF_KNOWN(C05_insert_pos_unchecked, op == 0); VF_KNOWN(C05_erase_pos_unchecked, op == 1 ? (cnt < o.n || cnt > (unsigned long)(N + 1 - p)) : op == 2 ? o.n > 1 : op == 3 && (unsigned long)(p - q) < o.n))
+/*@GROUP name=viol_pos_unchecked_m props=C05,C02 kind=K unwind=20 when=7<VF_N<=16 objbits=12 tier=thorough@*/
+H_VIOL_POS_UNCHECKED(h_viol_pos_unchecked_m, VF_KNOWN(C05_insert_pos_unchecked, op == 0); VF_KNOWN(C05_erase_pos_unchecked, op == 1 ? (cnt < o.n || cnt > (unsigned long)(N + 1 - p)) : op == 2 ? o.n > 1 : op == 3 && (unsigned long)(p - q) < o.n))
+/*@GROUP name=viol_pos_unchecked_w props=C05,C02 kind=K unwind=35 when=VF_N>16 objbits=12 tier=thorough timeout=3000@*/
+H_VIOL_POS_UNCHECKED(h_viol_pos_unchecked_w, VF_KNOWN(C05_insert_pos_unchecked, op == 0); VF_KNOWN(C05_erase_pos_unchecked, op == 1 ? (cnt < o.n || cnt > (unsigned long)(N + 1 - p)) : op == 2 ? o.n > 1 : op == 3 && (unsigned long)(p - q) < o.n))
+
+/*@COMMON@*/
+/* a reversed iterator pair */
+#define H_VIOL_RANGE(NAME, KNOWN) void NAME(void) { ARB(s); VF_INPUT(unsigned char, f); VF_INPUT(unsigned char, l); view_t o = view_of(&s); __CPROVER_assume(l < f && f <= o.n); EXPECT_VIOLATION(s); \
+  s_erase_range(&s, data_of(&s) + f, data_of(&s) + l); VF_NORETURN_EXPECTED(); }
+/*@GROUP name=viol_range props=C05,C02 kind=K unwind=11 when=VF_N<=7@*/
+H_VIOL_RANGE(h_viol_range, ((void)0))
+/*@GROUP name=viol_range_m props=C05,C02 kind=K unwind=20 when=7<VF_N<=16@*/
+H_VIOL_RANGE(h_viol_range_m, ((void)0))
+/*@GROUP name=viol_range_w props=C05,C02 kind=K unwind=35 when=VF_N>16 tier=thorough timeout=3000@*/
+H_VIOL_RANGE(h_viol_range_w, ((void)0))
